@@ -12,1983 +12,898 @@ Definition show_fres (r : fres) : string :=
   end.
 Definition check (rs : list rune) : string := digest (show_fres (format_res rs)).
 Definition full (rs : list rune) : string := show_fres (format_res rs).
-Eval vm_compute in ("<<<M902>>>" ++ check (runes_of_ascii "root packet charz {repeat o
-// a // b
-// trailing space 
-Packet
-,} packet	float
-{ match
-crc
-as
-    /// triple
-    body{""\" ++ [233]%N ++ runes_of_ascii """ :f32a 4294967296 :len
-    [ ""// no comment""
-    //x
-    ]
-: lengthOf, 65535 : // c
-i64_ ,
-//x
-//
-4294967296 : Pad,} , Logon // trailing space 
-, float64 body	@lengthOf( leftPad )
-`say ""hi""`
-    , match u8x as repeatCount{
-    // @lengthOf(
-    """ ++ [128512]%N ++ runes_of_ascii """ :
-i8i8
-    ,
-    ""\n"":tag , 7:pack , """ ++ [28040; 24687]%N ++ runes_of_ascii """
-//	t
-// " ++ [27880; 37322]%N ++ runes_of_ascii "
-: calculatedFrom, /// triple
-[
-    0 ,""it's""	]
-:
-    int } // c
-,char[0] stringy
-, repeat float32 trueish  `u8 x,`,char[]	T , } packet  calculatedFrom //	t
-{ matchKey	matchKey,@leftPad
-/// triple
-// `tick` ""quote"" 'q'
-(
-)msg_type, int16 // packet A { u8 x, }
-BodyLength `" ++ [233]%N ++ runes_of_ascii "` , char[
-    /// triple
-    255] /// triple
-packetx , @calculatedFrom( ""x y"" ) match
-    Packet as
-    uint8x // c
-{ ""\n"": repeatCount ,
-    [
-// packet A { u8 x, }
-// packet A { u8 x, }
-65535 ] : leftPad ,
-    ""\n"" :
-trueish,[""" ++ [233]%N ++ runes_of_ascii "t" ++ [233]%N ++ runes_of_ascii """
-,
-    1 // " ++ [27880; 37322]%N ++ runes_of_ascii "
-, ""abc""	,
-10]:f32a // " ++ [27880; 37322]%N ++ runes_of_ascii "
-[ ""// no comment"" ] : u// @lengthOf(
-65535
-: matchKey , } , match _x as float{ ""x y"": len  , } ,
-    char a1// c
-@lengthOf( i64_
-)	,_x @calculatedFrom(""\n"")
-`// not a comment`  , repeat calculatedFrom{ zchar[ 1] // " ++ [128512]%N ++ runes_of_ascii " emoji
-Foo , char[	7] options1 `tab	here`
-, //
-match
-    chars as A
-    { 4294967296 : string_
-    , } , u8x	@calculatedFrom(""`tick`""
-)
-, }
-    ,
-} packet calculatedFrom  {
-    @lengthOf(tag ) @leftPad(
-    //x
-    '\x00'
-    // " ++ [27880; 37322]%N ++ runes_of_ascii "
-    ) @rightPad
-    (
-'0')char[ 0123456789
-] u128 , rootA
-{zchar[ // a // b
-4294967296  ]
-//	t
-// a // b
-_x// a // b
-@lengthOf(
-    metadata // trailing space 
-) ,
-    } ,	Header u , @calculatedFrom(""it's"" )
-// @lengthOf(
-// trailing space 
-Pad @calculatedFrom( ""abc"" ) , @lengthOf(
-u
-) @lengthOf( len)
-    @rightPad	( ) // trailing space 
-int64 uint8x `// not a comment` , } root packet roots { u@lengthOf( i8i8 ) , @calculatedFrom(""\" ++ [233]%N ++ runes_of_ascii """)
-    BodyLength
-Logon, uint16 body @lengthOf(
-f32a )	`a\`, int16 // a // b
-zchar , @calculatedFrom(""a	b"" ) u32 u128 // @lengthOf(
-`
-` ,
-    Pad T //	t
-`
-`,
-    }")).
-Eval vm_compute in ("<<<M3541>>>" ++ check (runes_of_ascii "// top
-options // c0a
-  // c0b
-{ LittleEndian // c2a
-  // c2b
-= // c3a
-  // c3b
-true // c4a
-  // c4b
-; // c5a
-  // c5b
-FixedStringPadFromLeft // c6
-= // c7
-true // c8
-; // c9
-FixedStringPadChar // c10a
-  // c10b
-= // c11
-'0' // c12a
-  // c12b
-; // c13
-} // c14
-packet // c15
-Trade // c16a
-  // c16b
-{ string
-    // c18
-clOrdID
-    // c19
-, // c20
-char[]
-    // c21
-Px // c22a
-  // c22b
-, // c23
-u32 // c24a
-  // c24b
-x // c25a
-  // c25b
-, } // c27
-packet // c28
-Reject // c29
-{
-    // c30
-int32 // c31
-Side2
-    // c32
-,
-    // c33
-repeat char[ // c35a
-  // c35b
-3 ]
-    // c37
-clOrdID // c38a
-  // c38b
-,
-    // c39
-i32
-    // c40
-tag7
-    // c41
-, // c42a
-  // c42b
-}
-    // c43
-packet // c44a
-  // c44b
-Leg // c45a
-  // c45b
-{
-    // c46
-} // c47
-root // c48
-packet // c49
-Quote // c50a
-  // c50b
-{ // c51a
-  // c51b
-string // c52
-Side2 , string // c55
-lastPx
-    // c56
-, InSym58 // c58a
-  // c58b
-{ // c59a
-  // c59b
-int16
-    // c60
-OrderId // c61a
-  // c61b
-, Reject ,
-    // c64
-i8 Qty
-    // c66
-,
-    // c67
-i64 // c68a
-  // c68b
-venue
-    // c69
-, // c70
-f32
-    // c71
-Note
-    // c72
-, // c73
-} // c74a
-  // c74b
-,
-    // c75
-char[] // c76a
-  // c76b
-count
-    // c77
-, // c78
-zchar[ // c79a
-  // c79b
-9
-    // c80
-] // c81a
-  // c81b
-price
-    // c82
-, // c83
-u16 Qty // c85
-, // c86a
-  // c86b
-match // c87
-Qty
-    // c88
-as Body
-    // c90
-{
-    // c91
-69 // c92a
-  // c92b
-: Leg
-    // c94
-, // c95
-48 // c96a
-  // c96b
-: // c97
-Trade // c98
-, // c99a
-  // c99b
-51 // c100a
-  // c100b
-: Reject // c102
-, } , // c105
-u16 // c106
-Acct
-    // c107
-@calculatedFrom(
-    // c108
-""CRC32"" // c109a
-  // c109b
-)
-    // c110
-, } ")).
-Eval vm_compute in ("<<<M3715>>>" ++ check (runes_of_ascii "options {
-    uint8x = u64;
-    crc = '0'
-    // @lengthOf(
+Eval vm_compute in ("<<<M121>>>" ++ check (runes_of_ascii "packet body{ Z9_ {
+    string leftPad `crlf
+line` , msg_type { // c
+uint64 tag  `{ , }` ,repeat f64 BodyLength
+,} , i8i8 BodyLength , }
     // " ++ [128512]%N ++ runes_of_ascii " emoji
-    MetaDataX = '0';
-    len = '0'
-}
-
-MetaData matchKey {
-    /// triple
-}
-
-packet i64_ {
-    BodyLength `tab	here`,
-    @tag(00)
-    repeat string_,
-    @calculatedFrom(""" ++ [28040; 24687]%N ++ runes_of_ascii """)
-    @leftPad('0')
-    crc @calculatedFrom(""" ++ [233]%N ++ runes_of_ascii "t" ++ [233]%N ++ runes_of_ascii """),
-    @tag(1)
-    zchar[007] packetx `
-    `,
-    @leftPad('0')
-    x @calculatedFrom(""packet""),
-    @lengthOf(A)
-    /// triple
-    @calculatedFrom(""{,}"")
-    @rightPad('0')
-    string Header `say ""hi""`,
-    @lengthOf(u8x)
-    x Header `doc`,
-}
-
-packet uint8x {
-    @leftPad('\x00')
-    @lengthOf(leftPad)
-    BodyLength u,
-}
-
-root packet A {
-    @rightPad('\x00')
-    @lengthOf(leftPad)
-    char[4294967296] A @calculatedFrom(""// no comment""),
-    @tag(42)
-    @calculatedFrom(""packet"")
-    @calculatedFrom(""" ++ [128512]%N ++ runes_of_ascii """)
-    repeat Z9_ `" ++ [28040; 24687; 31867; 22411]%N ++ runes_of_ascii "`,
-    rootA crc,
-    Header,
-    char[4294967296] charz `{ , }`,
-    @calculatedFrom(""\n"")
-    @calculatedFrom(""it's"")
-    u64 stringy `" ++ [233]%N ++ runes_of_ascii "`,
-    repeat options1 {
-        body {
-            lengthOf @calculatedFrom(""a\\""),
-            options1 {
-                repeat chars leftPad `two words`,
-                // " ++ [27880; 37322]%N ++ runes_of_ascii "
-                // " ++ [27880; 37322]%N ++ runes_of_ascii "
-            },
-        },
-        repeat char[] _x,
-        zchar[3] options1,
-    },
-    @lengthOf(packetx)
-    @leftPad(' ')
-    @lengthOf(rootA)
-    float Packet,
-    @tag(7)
-    repeat u8 matchKey,
-}
-//	t")).
-Eval vm_compute in ("<<<M558>>>" ++ check (runes_of_ascii "// " ++ [27880; 37322]%N ++ runes_of_ascii "
-packet int {
-@tag( // a // b
-0)@rightPad ('0')@calculatedFrom(
-""CRC32"" ) zchar[ 10 ]
-    //x
-    float ,
-    char[
-1 // " ++ [27880; 37322]%N ++ runes_of_ascii "
-]float `
-`, int8
-i64_ @lengthOf( // packet A { u8 x, }
-u128 )
-    `{ , }` ,  uint32 rootA , float32 _x , u8 T `` , MetaDataX
-x
-    `it's` , char[] calculatedFrom , // @lengthOf(
-uint64
+    , falsey //
+,@leftPad ( // c
+'0') @lengthOf(
+    falsey	)
+    f32 Z9_
+@lengthOf(  o )
+    , @calculatedFrom(
+""" ++ [233]%N ++ runes_of_ascii "t" ++ [233]%N ++ runes_of_ascii """ )
+repeat string //x
+As
+,@lengthOf(falsey) @calculatedFrom( ""a	b"")
+    @tag( 3
+) repeat Header{
+Packet@lengthOf(
+    crc )
+    , repeat int16
+As
+, repeat uint16 // packet A { u8 x, }
+f32a , } , @lengthOf(float )@tag(
+    3 )
     // a // b
-    i8i8`// not a comment`	,
-    } MetaData lengthOf {
-// trailing space 
-// `tick` ""quote"" 'q'
-leftPad leftPad ,u32 a1 `it's` , Pad Packet ,//	t
-uint8x leftPad,  falsey roots`// not a comment`
-    , }
-packet A { calculatedFrom @calculatedFrom( ""CRC32"" ) `` ,repeat matchKey {
-    string
-chars`two words` , // trailing space 
-stringy @calculatedFrom( //	t
-""1""),
-// @lengthOf(
-// " ++ [128512]%N ++ runes_of_ascii " emoji
-} // c
-, // packet A { u8 x, }
-match trueish as float
-/// triple
-// " ++ [27880; 37322]%N ++ runes_of_ascii "
-{  3:int /// triple
-[
-    // trailing space 
-    """ ++ [233]%N ++ runes_of_ascii "t" ++ [233]%N ++ runes_of_ascii """  ,	""\n"" ]: Logon// @lengthOf(
-, 7: metadata ,
-007 :
-    //
-    u, },  @lengthOf(  body )char[]Logon //
-`tab	here` , // trailing space 
-@calculatedFrom( ""\" ++ [233]%N ++ runes_of_ascii """ )  charz// c
-@lengthOf( i64_  ), repeat  i64 f32a
-    ,repeat
-u32	Foo `
-` , @calculatedFrom(""1"" )
-    repeat int	{repeat trueish
-{ // trailing space 
-repeat f64 Foo ,  },
-} ,// c
-char[]	matchKey @lengthOf(
-x_y_z) , @rightPad
-    ( ) repeat int64
-As //	t
-,}
-")).
-Eval vm_compute in ("<<<M213>>>" ++ check (runes_of_ascii "packet a1
-{
-@lengthOf(	f32a	) repeat u64	string_
-    ,
-    @calculatedFrom( """"
-    ) repeat	i16 tag `u8 x,` , @tag( 42 ) @calculatedFrom(	""a\\"")  @calculatedFrom( ""\" ++ [233]%N ++ runes_of_ascii """
-) zchar[ 10
-] Foo , char[42
-    //	t
-    ]
-    body `// not a comment` , }MetaData roots{ uint64
-Z9_ `{ , }`,
-char[]charz `doc` , uint16 u128 `u8 x,` , zchar[ 4294967296 // trailing space 
-]
-    len
+    @tag(// " ++ [128512]%N ++ runes_of_ascii " emoji
+10 )	roots
+BodyLength , string tag //	t
 ,
-float32
-stringy
-,
-} packet
-Z9_	{ @leftPad ('\x00')
-    @tag(42 ) @tag( 7)
-    roots x
-    , @lengthOf( int ) crc zchar
-//	t
-//
-, } packet string_ { u8 Pad
-// c
-// " ++ [128512]%N ++ runes_of_ascii " emoji
-, u64 chars
-,
-    @lengthOf(	Logon
-)
-    pack
-,
-@leftPad (
-    ) @rightPad//
-(
-    ' '	)@calculatedFrom(""a	b"")
-    i8 x `crlf
-line`
-    , char[ 0123456789 // @lengthOf(
-]options1 @calculatedFrom( ""{,}"" )
-`two words` ,uint64 charz `doc` , char[] u128
-// packet A { u8 x, }
-//	t
-,
-    @calculatedFrom( ""1"" ) repeat matchKey
-    {
-repeat int o// c
-, } ,
-@lengthOf(calculatedFrom
-    )@rightPad ( '\x00')
-@tag( 00 )
-MetaDataX { uint32 BodyLength, } ,
-// trailing space 
-//
-} packet lengthOf {  @calculatedFrom(	""" ++ [28040; 24687]%N ++ runes_of_ascii """
-    )
-// trailing space 
-// " ++ [27880; 37322]%N ++ runes_of_ascii "
-repeat	repeatCount { repeat char[ 7]	pack `// not a comment`, }
-, }
-")).
-Eval vm_compute in ("<<<M1406>>>" ++ check (runes_of_ascii "options {
-	StringPrefixLenType = u16;
-	ArrayPrefixLenType = u16;
-}
-
-packet SampleBinary {
-	uint16 MsgType `" ++ [28040; 24687; 31867; 22411]%N ++ runes_of_ascii "`,
-	u16 BodyLenght @lengthOf(Body) `" ++ [28040; 24687; 20307; 38271; 24230]%N ++ runes_of_ascii "`,
-	match MsgType as Body {
-		1 : Logon,
-		2 : Logout,
-		3 : Heartbeat,
-		4 : RiskControlRequest,
-		5 : RiskControlResponse,
-	},
-	@calculatedFrom(""CRC32"")
-	u32 Ckecksum `" ++ [26657; 39564; 21644]%N ++ runes_of_ascii "`,
-}
-
-packet Logon {
-	@leftPad('0')
-	char[10] UserName `" ++ [29992; 25143; 21517]%N ++ runes_of_ascii "`,
-	string Password `" ++ [23494; 30721]%N ++ runes_of_ascii "`,
-	uint64 ClientId `" ++ [23458; 25143; 31471]%N ++ runes_of_ascii "ID`,
-	u16 HeartbeatInterval `" ++ [24515; 36339; 38388; 38548]%N ++ runes_of_ascii "`,
-}
-
-packet Logout {
-	@rightPad('0')
-	char[10] UserName `" ++ [29992; 25143; 21517]%N ++ runes_of_ascii "`,
-	uint64 ClientId `" ++ [23458; 25143; 31471]%N ++ runes_of_ascii "ID`,
-}
-
-packet Heartbeat {
-}
-
-packet RiskControlRequest {
-	string UniqueOrderId `" ++ [21807; 19968; 35746; 21333; 21495]%N ++ runes_of_ascii "`,
-	char[16] ClOrdID `" ++ [23458; 25143; 35746; 21333; 21495]%N ++ runes_of_ascii "`,
-	char[3] MarketID `" ++ [24066; 22330]%N ++ runes_of_ascii "id`,
-	char[12] SecurityID `" ++ [35777; 21048; 20195; 30721]%N ++ runes_of_ascii "`,
-	char Side `" ++ [20080; 21334; 26041; 21521]%N ++ runes_of_ascii "`,
-	char OrderType `" ++ [35746; 21333; 31867; 22411]%N ++ runes_of_ascii "`,
-	u64 Price `" ++ [20215; 26684]%N ++ runes_of_ascii "`,
-	u32 Qty `" ++ [25968; 37327]%N ++ runes_of_ascii "`,
-	repeat string ExtraInfo `" ++ [38468; 21152; 20449; 24687]%N ++ runes_of_ascii "`,
-	repeat SubOrder {
-		char[16] ClOrdID `" ++ [23376; 35746; 21333; 21495]%N ++ runes_of_ascii "`,
-		u64 Price `" ++ [23376; 35746; 21333; 20215; 26684]%N ++ runes_of_ascii "`,
-		u32 Qty `" ++ [23376; 35746; 21333; 25968; 37327]%N ++ runes_of_ascii "`,
-	},
-}
-
-packet RiskControlResponse {
-	string UniqueOrderId `" ++ [21807; 19968; 35746; 21333; 21495]%N ++ runes_of_ascii "`,
-	i32 Status `" ++ [29366; 24577]%N ++ runes_of_ascii "`,
-	string Msg `" ++ [32467; 26524; 20449; 24687]%N ++ runes_of_ascii "`,
-	repeat Detail,
-}
-
-packet Detail {
-	string RuleName `" ++ [35268; 21017; 21517; 31216]%N ++ runes_of_ascii "`,
-	u16 Code `" ++ [21407; 22240; 20195; 30721]%N ++ runes_of_ascii "`,
-}")).
-Eval vm_compute in ("<<<M154>>>" ++ check (runes_of_ascii "root packet // packet A { u8 x, }
-a1 {
-    // " ++ [27880; 37322]%N ++ runes_of_ascii "
-    repeat leftPad {
-    // a // b
-    lengthOf
-, }
-    ,
-    @tag(// c
-0123456789)int64 repeatCount ``,	match
-int as len {
-1 : repeatCount , """" : lengthOf,
-[
-""a\""b""
-    , 255,
-7 ,""it's"" ,255,
-    00 , 7 , ""`tick`""
-    //
-    ]
-    : msg_type , 42 :body
-    ,
-    } ,
-    repeat asx { charz { char[ 007 ]f32a ,
-    // a // b
-    } ,match
-    u as
-    Z9_ { """ ++ [233]%N ++ runes_of_ascii "t" ++ [233]%N ++ runes_of_ascii """ : float
-,
-    // c
-    ""1""
-: Pad , [
-    """", 10 ] // packet A { u8 x, }
-: Header , [ 42 ]: repeatCount , 00// a // b
-: T , } , } ,
-@rightPad ( ' ' )
-falsey,
-    @tag( 0) @calculatedFrom(	""1"" )
-@leftPad (
-    '\x00') o , }
-    MetaData i64_{ } packet x{
-@lengthOf( Header) repeat
-msg_type {
-    repeat char[ 0123456789 ] u,
-    // packet A { u8 x, }
-    uint32
-BodyLength	@lengthOf( _x) `crlf
-line` , },} MetaData Header { Header
-    options1,
-    f32a
-stringy ,
-    char[] uint8x `a\` , char[ // trailing space 
-1
-    // packet A { u8 x, }
-    ] u128, i32 Z9_
-    ,
-    float32 // a // b
-msg_type,
-    }
-
-")).
-Eval vm_compute in ("<<<M3532>>>" ++ check (runes_of_ascii "options {
-    StringPrefixLenType = u32;
-    ArrayPrefixLenType = u8;
-    FixedStringPadFromLeft = false;
-}
-packet Logon {
-    i8 venue,
-    int16 f1,
-    zchar[8] Acct,
-    repeat InNote16 {
-        InQty73 {
-            float32 tag7,
-        },
-        f32 Acct,
-        zchar[5] sym,
-    },
-    uint16 Side2,
-    i32 lastPx,
-}
-packet Fill {
-    repeat InOrderid15 {
-        zchar[8] sym,
-        repeat char[2] OrderId,
-        repeat Logon,
-        InQty82 {
-            char[] Tail,
-            repeat Logon,
-            float64 price,
-            f64 Side2,
-        },
-        char[12] venue,
-        char[4] Px,
-    },
-    @rightPad('0') char[2] venue,
-    InPrice99 {
-        InAcct72 {
-            u8 pad0,
-        },
-        u32 OrderId,
-        Logon,
-    },
-}
-root packet Reject {
-    zchar[9] msgKind,
-    u32 venue,
-    u16 seqNo @lengthOf(Body),
-    match venue as Body {
-        57 : Fill,
-        8 : Logon,
-    },
-    u16 Tail @calculatedFrom(""CRC32""),
-}
-")).
-Eval vm_compute in ("<<<M387>>>" ++ check (runes_of_ascii "
-root  packet chars{
-match options1
-as zchar { ""a\\""
-: Packet }
-    // c
-    ,u16	metadata @calculatedFrom( ""{,}"" ) ,	repeat A msg_type , @calculatedFrom( ""CRC32"")@lengthOf(
-    float ) @lengthOf(MetaDataX )
-repeat zchar[0123456789 ] Z9_// c
-`{ , }` , @tag(7)
-// trailing space 
-// a // b
-float32
-crc
-// trailing space 
-// packet A { u8 x, }
-@lengthOf(charz )
-, @tag(
-// packet A { u8 x, }
-//	t
-3 ) calculatedFrom Pad, // c
-repeat int32 trueish
-, }
-    options  {A = zchar[
-65535 ] Logon = ""abc""
-chars =
-    7 Pad = ""\" ++ [233]%N ++ runes_of_ascii """
-    }packet int // @lengthOf(
-{ @lengthOf(
-MetaDataX ) @calculatedFrom(
-// packet A { u8 x, }
-// a // b
-""\" ++ [233]%N ++ runes_of_ascii """
-) zchar[
-    4294967296
-] matchKey @lengthOf( Pad)
-`" ++ [28040; 24687; 31867; 22411]%N ++ runes_of_ascii "`
-    ,
-}
-packet As
-{
-@lengthOf( BodyLength )
-    u64 matchKey ,u64
-    trueish `" ++ [28040; 24687; 31867; 22411]%N ++ runes_of_ascii "` , @rightPad
-( )char[
-00]
-    A
-@calculatedFrom(
-    """ ++ [128512]%N ++ runes_of_ascii """ )`say ""hi""`	, repeatCount@lengthOf(BodyLength
-// a // b
-// `tick` ""quote"" 'q'
-) ,
-len  ,}")).
-Eval vm_compute in ("<<<M149>>>" ++ check (runes_of_ascii "MetaData As{
-    u//
-matchKey	, char[] T	, char[] Foo// @lengthOf(
-`{ , }`,
-    }root
-packet
-    T { @lengthOf(
-tag ) @tag( 0123456789 ) match repeatCount as
-    BodyLength { """ ++ [233]%N ++ runes_of_ascii "t" ++ [233]%N ++ runes_of_ascii """  :o ,
-65535 : float,
-    ""a	b""	: _x , [ ""x y"" , 65535
-// packet A { u8 x, }
-//x
-] : string_ ,}
-,}
-    root packet
-_x { match msg_type
-    // trailing space 
-    as
-    f32a {""\" ++ [233]%N ++ runes_of_ascii """ : Header 3	:
-repeatCount [7, ""a	b"" ] :
-_x
-, ""it's"":
-stringy 10
-:
-//	t
-/// triple
-As ,""it's"" :lengthOf }
-, @calculatedFrom(""packet"" ) int64// `tick` ""quote"" 'q'
-falsey ,	@leftPad// packet A { u8 x, }
-( )
-//	t
-//
-char[ 1 ]len// @lengthOf(
-@lengthOf( Foo ) ,	chars
-T ,
-    zchar[
-007	]	options1
-,
-match f32a as
-asx
-{[ ""1"" ] :matchKey, """ ++ [28040; 24687]%N ++ runes_of_ascii """: As ,
-    // c
-    4294967296 : options1 ,
-}
-    , }	MetaData o
-    {	zchar[ 42] repeatCount ,packetx falsey,Packet options1
-`{ , }` ,} options { falsey = ""a\\""	} // " ++ [128512]%N ++ runes_of_ascii " emoji")).
-Eval vm_compute in ("<<<M1023>>>" ++ check (runes_of_ascii "packet
-matchKey {
-} MetaData
-    string_{ //	t
-pack repeatCount
+} MetaData int {  char[ 1 ] As
+, Packet u128 , // c
+pack
+    x_y_z
 `{ , }` ,
-char[ 7 ] x , i32
-crc
-, Logon chars , uint32 o , Packet charz
-    ,
-}MetaData calculatedFrom {	int64 uint8x ,i16
-    o `// not a comment`, //x
-float float
-    , } packet stringy { }packet  len { repeat pack `{ , }` , @rightPad (' '
-) match i64_ as/// triple
-i64_ // @lengthOf(
-{
-""1"":
-As [4294967296 ] ://
-Logon , // `tick` ""quote"" 'q'
-0123456789 :options1 , 4294967296
-: roots}/// triple
-, char[ 3 ] rootA
-    @lengthOf( int )
-,
-    @leftPad
-(' ')
-// a // b
-/// triple
-@calculatedFrom(
-""abc"" )@leftPad (
-) zchar[
-    255 ]
-    _x@calculatedFrom(""{,}"" )
-, chars charz `a\` , @lengthOf(  roots )
-// a // b
-// a // b
-match u8x as
-    Z9_
-// " ++ [27880; 37322]%N ++ runes_of_ascii "
-/// triple
-{
-    // packet A { u8 x, }
-    65535  : a1 , 65535 :x_y_z ""a	b"" :MetaDataX , } , tag
-,} 	 ")).
-Eval vm_compute in ("<<<M468>>>" ++ check (runes_of_ascii "root packet //
-len{
-    char[ 1]As , i64 T	@lengthOf( u8x
-)	`u8 x,` , repeat int16
-/// triple
-// " ++ [128512]%N ++ runes_of_ascii " emoji
-i8i8`" ++ [233]%N ++ runes_of_ascii "` , @tag( 42 ) match chars as calculatedFrom
-    {[ ""a\\"", 0
-] : // " ++ [27880; 37322]%N ++ runes_of_ascii "
-trueish
-3
-    : BodyLength
-    ""{,}"" : len } , // a // b
-repeat zchar[
-4294967296 ]
-A
-    ``, repeat char uint8x  `it's`
-,}packet// " ++ [27880; 37322]%N ++ runes_of_ascii "
-x_y_z {	@lengthOf(matchKey ) @tag(
-    3
-    )@calculatedFrom( ""\" ++ [233]%N ++ runes_of_ascii """  )
-    string
-    lengthOf@calculatedFrom(
-""" ++ [233]%N ++ runes_of_ascii "t" ++ [233]%N ++ runes_of_ascii """ ) , } root
-packet //
-int
-// trailing space 
-// packet A { u8 x, }
-{ repeat BodyLength { match Pad as chars {[ ""`tick`""]
-:
-    // a // b
-    zchar,[ """ ++ [28040; 24687]%N ++ runes_of_ascii """ , ""CRC32"" ,""// no comment""] : repeatCount
-,  1 :metadata
-, 3 : As , 3 : lengthOf } ,
-u32 A // " ++ [27880; 37322]%N ++ runes_of_ascii "
-`// not a comment` ,
-//x
-//x
-f64 stringy @lengthOf( As )`" ++ [233]%N ++ runes_of_ascii "`
-    , o
-,
-}
-, }
-    packet
-zchar {}
-// c
-")).
-Eval vm_compute in ("<<<M924>>>" ++ check (runes_of_ascii "options {msg_type=	int64 ;// `tick` ""quote"" 'q'
-tag // c
-=
-// `tick` ""quote"" 'q'
-// " ++ [128512]%N ++ runes_of_ascii " emoji
-true falsey = ' '
-    ;  } MetaData float
-// a // b
-/// triple
-{
-    chars
-    pack  , o Pad
-, // `tick` ""quote"" 'q'
-rootA int , // `tick` ""quote"" 'q'
-i64 Logon, char[ 00 ]lengthOf
-`two words` , u128 u8x
-    `// not a comment`
-,
-    }MetaData packetx { }root	packet uint8x
-    { @lengthOf( matchKey ) MetaDataX {o { repeat
-uint16 i64_ , uint64  msg_type
-@calculatedFrom( """"  ) , } , //
-repeat i64 BodyLength
-    `u8 x,`
-    , char[] Z9_
-,} , //
-char[ 3]
-stringy
-    ,
-    @lengthOf(
-uint8x
-) @calculatedFrom(	""abc""	)
-A
-    `" ++ [28040; 24687; 31867; 22411]%N ++ runes_of_ascii "` ,
-i32
-    msg_type  , i8 f32a @lengthOf( falsey ) , @calculatedFrom( ""CRC32"" ) u8
-    MetaDataX  @calculatedFrom(
-""`tick`"" ), }
-")).
-Eval vm_compute in ("<<<M4200>>>" ++ check (runes_of_ascii "packet roots {
-    @calculatedFrom(""CRC32"")
-    @tag(42)
-    Z9_ leftPad `line1
-        line2`,
-    @lengthOf(string_)
-    @lengthOf(Packet)
-    @calculatedFrom(""// no comment"")
-    repeat chars len,
-    @tag(42)
-    @tag(3)
-    u8 u128 @lengthOf(A),
-    char T,
-    @lengthOf(charz)
-    // `tick` ""quote"" 'q'
-    zchar lengthOf,
-    repeat zchar[00] A,
-    char[4294967296] leftPad `u8 x,`,
-    @tag(4294967296)
-    @tag(007)
-    repeat char[65535] float `two words`,
-}
-
-packet crc {
-    msg_type @lengthOf(chars),
-    string chars @lengthOf(u128),
-    int64 Header,
-    match lengthOf as pack {
-        [255, ""packet""] : i64_,
-        //x
-        1 : u,
-    },
-    trueish @lengthOf(packetx),
-    charz @lengthOf(packetx),
-}")).
-Eval vm_compute in ("<<<M4180>>>" ++ check (runes_of_ascii "
-
-  root	packet
-
-i64_	// " ++ [27880; 37322]%N ++ runes_of_ascii "
-	{
-match	// " ++ [128512]%N ++ runes_of_ascii " emoji
-    	rootA
-as
-stringy
-
+    string_
+len ,
+zchar[
+0
+] Header , string
+    zchar `
+`, } root packet uint8x { char[] u128
+, }root packet crc { repeat trueish { f32 lengthOf `say ""hi""` , i8 crc	@calculatedFrom( """ ++ [233]%N ++ runes_of_ascii "t" ++ [233]%N ++ runes_of_ascii """) , match Z9_ as repeatCount
     {
-
-10 :
-    int ,
-    7
-:
-chars  , 7
-:int 4294967296
-    : 	 // @lengthOf(
-Foo
-	,
-[  // trailing space 
-	7
-
-, """ ++ [28040; 24687]%N ++ runes_of_ascii """
-
-] :	// c
-    BodyLength [ 0
-
-    ,""1""
-
-    , 00 ,7
-
-    ,
-""it's"" ]
-:	As
-	, 
-}  , repeat
-	char[]  a1
-    `u8 x,` , @leftPad 
-    // packet A { u8 x, }
-
-  // " ++ [27880; 37322]%N ++ runes_of_ascii "
-	  ( 
-      // trailing space 
-
-' '  )
-	packetx,
-    @calculatedFrom(  ""\n"" ) repeat
-
-matchKey  {char[7
-	    // `tick` ""quote"" 'q'
-]
-    falsey`crlf
-line`	,
-} , 
-    // c
-    	/// triple
-
-	@lengthOf(f32a )
-uint8 Z9_
-, 
-// a // b
-    //	t
-    falsey	, repeat
-    leftPad ,  @tag(
-
-1
-	) 
-u8x
-
-@lengthOf(  i64_
-
-    ) , 
-}")).
-Eval vm_compute in ("<<<M1066>>>" ++ check (runes_of_ascii "MetaData
-zchar{ } packet
-Packet { u16 x  @calculatedFrom(
-    """ ++ [28040; 24687]%N ++ runes_of_ascii """ )
-``
+    [ 3 ] :  string_
+, ""it's""  : A 0 :	u8x 65535 : u128  } , // trailing space 
+i32 x , },char[]
+    pack `// not a comment` , char[]leftPad @calculatedFrom("""" ) `
+` ,
+string o `doc` ,}
+    packet// " ++ [27880; 37322]%N ++ runes_of_ascii "
+rootA  { // " ++ [128512]%N ++ runes_of_ascii " emoji
+repeat x_y_z{
+    zchar[
+//	t
+//	t
+3 ]
+    stringy
+`crlf
+line`,  BodyLength
+    BodyLength
+    `` , lengthOf
+@calculatedFrom(
+""x y""
+) , // c
+float64
+    // " ++ [27880; 37322]%N ++ runes_of_ascii "
+    Logon	@calculatedFrom(
+""a\\"" ) ,
+} , @lengthOf( Pad
+)// `tick` ""quote"" 'q'
+@calculatedFrom( ""abc"") @tag(4294967296 )uint8x @lengthOf( // packet A { u8 x, }
+crc )  ,
+@calculatedFrom( //	t
+""" ++ [233]%N ++ runes_of_ascii "t" ++ [233]%N ++ runes_of_ascii """  )
+string u
+@lengthOf(
+uint8x)
+    `// not a comment` ,u
+    metadata`u8 x,`
 ,
-    // " ++ [128512]%N ++ runes_of_ascii " emoji
-    @tag(	7 )	@tag( 00)
-Packet u128,	@lengthOf( //
-float )
-match A
-as
-// trailing space 
-// @lengthOf(
-charz
-{00 // `tick` ""quote"" 'q'
-: x ,[ 0 ,
-255
-, ""it's"" ,10
-    ] : Packet
-    , ""a\\"":  metadata
-, [// c
-""`tick`"" , 10 ] /// triple
-:
-chars , [ ""a\""b"" // packet A { u8 x, }
-] :trueish, } ,uint64 string_ // trailing space 
-,
-@rightPad
-(// a // b
-' ')  float64
-    stringy `line1
-line2`  ,  @tag( 00 //
-)	uint16 As , }//	t
-options {Logon =
-    false  ;
-    // a // b
-    body =
-    f64 // c
-; } MetaData asx { } packet leftPad{float @lengthOf( A ) `a\`  ,
-}
-// " ++ [27880; 37322]%N ++ runes_of_ascii "
+    }
 ")).
-Eval vm_compute in ("<<<M4084>>>" ++ check (runes_of_ascii "  root
+Eval vm_compute in ("<<<M1745>>>" ++ check (runes_of_ascii "  packet
+chars{
+int32	trueish	,match Pad 
+as
+repeatCount
+	{[
 
-packet
-	stringy 
-{
+0 ] : // " ++ [27880; 37322]%N ++ runes_of_ascii "
+	Pad
 
-    repeat 
-char[]  MetaDataX 
-, @calculatedFrom(
-""CRC32""
-    )  body, @tag(	// @lengthOf(
-42
-) @rightPad
-(' '
-    )
-@rightPad(
+,/// triple
+	3  :Foo
 
-) 	 // packet A { u8 x, }
-  repeat
+    ,""abc""
 
-u8x
-{
-    BodyLength @lengthOf(A
-
-    )
-	, }
-
-    , match 
-f32a as
-x_y_z {
-
-4294967296  :
-	Foo ,	} 
-// @lengthOf(
-	  //x
-,
-    repeatCount { uint8
-    As 
-      /// triple
-    // a // b
-
-	`a\` 	 // a // b
+:
+    i64_	//	t
 
   ,
-    },
+[ 255
 
-} 
-packet
-	u
-	{  repeat // `tick` ""quote"" 'q'
-char	charz
     ,
-	} options  { Header
-=
-char
-	; }
+    3
+] : 
+Packet	,	[
 
-root
+0123456789// @lengthOf(
+	, 
+""// no comment""
+	] :
+Packet
+,}
+	,  // c
+    match
+a1
+as
 
-packet	i64_
-    { u8
-	Z9_ `
-` 
-, @calculatedFrom(
-""1"")
-    u128  float	,} options
-    {
-_x 
-= 00
-;
-    } ")).
-Eval vm_compute in ("<<<M3552>>>" ++ check (runes_of_ascii "// top
-packet
-    // c0
-Sub // c1
+u{  [// `tick` ""quote"" 'q'
+	  ""abc"" , """ ++ [233]%N ++ runes_of_ascii "t" ++ [233]%N ++ runes_of_ascii """ 
+, """" ,
+
+    0  ,  
+  //	t
+	255  ]
+: u 
+	    //	t
+	,
+    }
+    ,
+@tag(  10
+)
+match a1
+as 
+a1
 {
-    // c2
-u8 // c3a
-  // c3b
-a // c4
-, // c5
-u32 SubSum @calculatedFrom( // c8a
-  // c8b
-""CRC16""
-    // c9
-) // c10a
-  // c10b
-, } // c12a
-  // c12b
-root // c13
-packet
-    // c14
-Frame // c15a
-  // c15b
-{ // c16a
-  // c16b
-u16
-    // c17
-MsgType // c18a
-  // c18b
-,
-    // c19
-u16 // c20a
-  // c20b
-BodyLen // c21
-@lengthOf(
-    // c22
-Body ) , Sub // c26a
-  // c26b
-Body
-    // c27
-, // c28
-string note
-    // c30
-, // c31a
-  // c31b
-u32 // c32a
-  // c32b
-Checksum @calculatedFrom( // c34a
-  // c34b
-""CRC16""
-    // c35
-) // c36
-, u8 // c38
-tail // c39
-, // c40
-} // c41
-")).
-Eval vm_compute in ("<<<M1255>>>" ++ check (runes_of_ascii "packet repeatCount { } root
-    packet x {// " ++ [128512]%N ++ runes_of_ascii " emoji
-match body as pack { 10
-    :charz} , @leftPad
-    ( '\x00'
-    // c
-    ) @lengthOf( _x ) string//x
-f32a
-// @lengthOf(
-// `tick` ""quote"" 'q'
-@calculatedFrom(
-""1"" )
-/// triple
-// `tick` ""quote"" 'q'
-, @tag(4294967296 ) @leftPad
-    ( ) string
-    Logon
-,int64
-    i8i8`it's` ,
-} packet
-    Logon
-{
-len
-    // trailing space 
-    {
-repeat i32 float //
-,
-} ,
-    @lengthOf( Z9_
-) repeat lengthOf  msg_type, string_ //
-@calculatedFrom(""{,}""
-) ,
-@tag(255
-    ) char[4294967296 //	t
-]  pack
-`say ""hi""`
-, }
-")).
-Eval vm_compute in ("<<<M194>>>" ++ check (runes_of_ascii "// " ++ [128512]%N ++ runes_of_ascii " emoji
-packet// @lengthOf(
-int { match zchar
-as _x {	[ 4294967296 ]
-    :
-x_y_z ,[
-""a\""b"" // @lengthOf(
-]  :chars ,
     [
-    ""it's"" , ""\" ++ [233]%N ++ runes_of_ascii """ , ""packet""
-    ,""{,}"" ] :
-f32a
-}, x { repeat asx{ zchar[  0123456789
-]crc `crlf
-line`, msg_type	i8i8`crlf
-line` ,
-    uint16
-rootA @calculatedFrom( ""a\\"" )
-    // @lengthOf(
-    , Logon x_y_z
-`" ++ [233]%N ++ runes_of_ascii "` , },
-} , } packet
-u{ match
-    pack as trueish //x
-{ ""1"" : len """ ++ [128512]%N ++ runes_of_ascii """ : leftPad ,4294967296 // @lengthOf(
-:	metadata
-, }
-    ,int T  `line1
-line2` ,f32 Logon
-    , } options {
+42 ]	//
+	:
+packetx ,
+}
+    ,
+
+    @lengthOf( As)
+    repeat char[  0123456789 ]  repeatCount`tab	here`
+
+,
+    string
+    o
+
+    `crlf
+line` , 
+//x
+
+// a // b
+
+As
+	@lengthOf(	//x
+      i8i8
+)
+	,
+string
+    repeatCount @lengthOf( u128 
+)
+
+    ,
+
+//
+  @tag(
+
+00	)	repeat pack
+	Logon
+
+    ,}root  packet Foo
+    {
+
+@tag( 1 )  char[// packet A { u8 x, }
+		3
+
+] i64_
+,
+
+f32
+
+    // packet A { u8 x, }
+	// " ++ [27880; 37322]%N ++ runes_of_ascii "
+    charz
+,// `tick` ""quote"" 'q'
+
+i8
+    zchar
+	@lengthOf( // `tick` ""quote"" 'q'
+
+MetaDataX	) /// triple
+  	,  @tag(  007
+)  u8 _x, 
+@tag( 
+255
+) msg_type@calculatedFrom( ""`tick`""
+)  `doc`,
+    @calculatedFrom(  """ ++ [233]%N ++ runes_of_ascii "t" ++ [233]%N ++ runes_of_ascii """
+
+    )match  len
+    as 	 /// triple
+		As
+
+    {""// no comment""
+
+    :falsey 
+,
+
+    }  ,
+    }	MetaData leftPad { x
+
+i8i8 ,  }  //
+")).
+Eval vm_compute in ("<<<M139>>>" ++ check (runes_of_ascii "
+packet len{ repeat i8i8 `u8 x,`
+    ,
+// @lengthOf(
+// a // b
+repeat char[ // c
+0123456789
+//x
+//
+]	a1 ,
+@rightPad ( )
+// trailing space 
+// " ++ [27880; 37322]%N ++ runes_of_ascii "
+match options1 as
+    string_
+{ 007 :uint8x  [
+""it's"", // c
+""\n"" ] : body } , zchar[ 1
+] float @lengthOf( Header) , @lengthOf( rootA )  @tag(
+    // packet A { u8 x, }
+    00 ) @lengthOf( metadata ) repeat
+    //x
+    metadata { int16
+    // " ++ [27880; 37322]%N ++ runes_of_ascii "
+    i64_
+    ,} ,
+i64_ , zchar[ 0123456789 ] lengthOf @calculatedFrom(""it's"" ) ,  } root
+    packet
+f32a { @leftPad
+    ( '0' ) @leftPad // " ++ [128512]%N ++ runes_of_ascii " emoji
+( '\x00' ) i64_`tab	here`
+,repeat x Packet ,char[ 42 ] Foo @calculatedFrom( ""abc"" ) , int16  uint8x @lengthOf( MetaDataX ) // @lengthOf(
+`a\`
+, // " ++ [27880; 37322]%N ++ runes_of_ascii "
+i8 Header `
+` /// triple
+, repeat//
+Pad
+    A , char[3  ] _x , @calculatedFrom(// trailing space 
+""x y"")
+match MetaDataX	as As {
+//	t
+//x
+[	""a	b"", """ ++ [28040; 24687]%N ++ runes_of_ascii """
+]
+:	options1, [""" ++ [28040; 24687]%N ++ runes_of_ascii """ ,
+""it's""
+    , 3
+    , 7
+,
+42 ,""abc""	] :	_x , """"
+    //	t
+    :
+charz ,
+""a\\"" :// trailing space 
+a1
+, //
+} , @tag( 7 ) u8 float ,
     }
 ")).
-Eval vm_compute in ("<<<M1369>>>" ++ check (runes_of_ascii "packet leftPad { @calculatedFrom( ""\" ++ [233]%N ++ runes_of_ascii """ ) @rightPad	( '0'
-) @lengthOf( asx)
-BodyLength trueish `it's` ,
-@leftPad('\x00' ) A // " ++ [128512]%N ++ runes_of_ascii " emoji
-i8i8`
-` ,@tag(
-    0 ) matchKey
-{  int16
-falsey `line1
-line2` ,/// triple
-} ,// " ++ [128512]%N ++ runes_of_ascii " emoji
-match tag as
-falsey	{
-    [ ""packet"" ]  : i64_
-3 : leftPad
-    ,	} , @calculatedFrom(
-    ""// no comment""
-) string a1
-,@leftPad // trailing space 
-(
-// `tick` ""quote"" 'q'
-// @lengthOf(
-'\x00' )
-@calculatedFrom( """ ++ [28040; 24687]%N ++ runes_of_ascii """ )
-@calculatedFrom(
-    ""`tick`""
-    )repeat chars
-As
-,
-}
-")).
-Eval vm_compute in ("<<<M1389>>>" ++ check (runes_of_ascii "packet u128
-    { // @lengthOf(
-@lengthOf(
-u8x)	char[]
-lengthOf`it's` ,
-@calculatedFrom(""it's"" ) u16 metadata@calculatedFrom( ""// no comment"" )
-//x
-// " ++ [128512]%N ++ runes_of_ascii " emoji
-`// not a comment`
-    , @lengthOf( int )// @lengthOf(
-repeat trueish float ,
-    // c
-    char[  00] falsey , repeat
-    zchar[ 3] falsey ,@lengthOf(	pack )
-zchar[
-    //	t
-    007]
-// c
-// " ++ [128512]%N ++ runes_of_ascii " emoji
-packetx @lengthOf( len
-    ) ,
-repeat// @lengthOf(
-char u `tab	here` ,Pad// @lengthOf(
-@lengthOf( leftPad  ) , }
-")).
-Eval vm_compute in ("<<<M4370>>>" ++ check (runes_of_ascii "  //
-      packet
-    asx
-{// c
-    match	rootA
-    as  u8x {
-	0123456789:As
+Eval vm_compute in ("<<<M1776>>>" ++ check (runes_of_ascii "  packet
+chars{} // c
+	  packet
+    len{ repeat
+char[]  Foo
+    ,	@rightPad (
+'0' ) zchar[ 007
+] 	 /// triple
+  a1`say ""hi""` ,
 
-    ,	} ,
-	@lengthOf(
+repeat BodyLength
+
+    leftPad 
+, 
+}
+
+    root
+    packet 
+u8x 
+{
+f64 lengthOf	@calculatedFrom(
+""CRC32""	)
+,string
 
     zchar
-    ) 
-i32 
-Z9_ 
-@calculatedFrom(
+@lengthOf(
+int
 
-""`tick`"" // packet A { u8 x, }
-
-), repeat string_	//x
-
-{repeat  zchar[ 00
-]	Logon	`a\` 
-,
-    u16
-
-packetx
-    `` 
-,
-	}
-	,
-    _x,
-repeat string
-msg_type , u64 chars
-    @lengthOf(
-chars)
+) `crlf
+line`
     ,
+int  calculatedFrom ,@lengthOf(
 
-asx
-
-falsey
-    `tab	here`  /// triple
-    ,
-	i32
-u , 
-    //
-// trailing space 
-	  }MetaData	charz {
-}
-")).
-Eval vm_compute in ("<<<M172>>>" ++ check (runes_of_ascii "// c
-options  {
-i8i8
-    = """ ++ [28040; 24687]%N ++ runes_of_ascii """
-    // trailing space 
-    ; Pad= ' ' }root packet i8i8{ i64 matchKey`" ++ [233]%N ++ runes_of_ascii "`
-,match repeatCount as x// @lengthOf(
-{
-//	t
-// a // b
-42 : float
-    ,
-007 : u , }
-// trailing space 
-//x
-,
-@calculatedFrom( ""a	b"" ) string_
-// @lengthOf(
-/// triple
-{  matchKey string_
-    ,// trailing space 
-} , repeat char[] repeatCount
-    , }
-options // a // b
-{
-msg_type =
-true ; int
-// " ++ [128512]%N ++ runes_of_ascii " emoji
-// " ++ [27880; 37322]%N ++ runes_of_ascii "
-= u16	string_
-    = false ;}")).
-Eval vm_compute in ("<<<M3434>>>" ++ check (runes_of_ascii "// top
-packet
-    // c0
-B // c1
-{
-    // c2
-u8 a // c4a
-  // c4b
-,
-    // c5
-} // c6a
-  // c6b
-root packet // c8
-P // c9
-{
-    // c10
-u8 K
-    // c12
-, // c13
-u8 // c14a
-  // c14b
-L // c15a
-  // c15b
-@lengthOf( // c16a
-  // c16b
-Body
-    // c17
-)
-    // c18
-, // c19
-match // c20a
-  // c20b
-K // c21a
-  // c21b
-as
-    // c22
-Body // c23a
-  // c23b
-{ // c24a
-  // c24b
-1 : // c26
-B , }
-    // c29
-, // c30
-} // c31a
-  // c31b
-")).
-Eval vm_compute in ("<<<M1193>>>" ++ check (runes_of_ascii "options
-// packet A { u8 x, }
-// @lengthOf(
-{ asx
-    // " ++ [128512]%N ++ runes_of_ascii " emoji
-    = // trailing space 
-true u128 //x
-= ""// no comment""	len	= ' ' ; crc =
-    ""1"" ; f32a
-= zchar[
-    //
-    255 ] ;} packet falsey
-{ @calculatedFrom(  ""{,}""
-)	@lengthOf(
-f32a) repeat int64
-i8i8
-    `two words` ,
-    //
-    float64
-Z9_
-    @lengthOf(
-    A ) `" ++ [28040; 24687; 31867; 22411]%N ++ runes_of_ascii "` ,match int as calculatedFrom { // trailing space 
-10
+    As )
+    match	falsey as  asx { 65535
 :
-T//	t
-, }, } //	t")).
-Eval vm_compute in ("<<<M606>>>" ++ check (runes_of_ascii "
-options { x_y_z
-    =// @lengthOf(
-""x y"" ; }
-    // " ++ [27880; 37322]%N ++ runes_of_ascii "
-    packet
-int { @calculatedFrom( ""\" ++ [233]%N ++ runes_of_ascii """ ) match
-    MetaDataX
-as
-o {// c
-4294967296
-    : o , } ,
-    }
-    // packet A { u8 x, }
-    MetaData
-    asx {
-    As u8x `// not a comment` ,	char[]
-string_`doc` , i64_ Z9_
-    ,
-    i16 leftPad `it's`
-    // `tick` ""quote"" 'q'
-    ,
-u16	BodyLength `// not a comment`,
-lengthOf len ,
-    }")).
-Eval vm_compute in ("<<<M3283>>>" ++ check (runes_of_ascii "// top
-packet // c0
-trueish // c1
-{ // c2
-repeat // c3
-u32 // c4
-MetaDataX // c5
-`doc` // c6
-, // c7
-Header // c8
-{ // c9
-packetx // c10
-o // c11
-`u8 x,` // c12
-, // c13
-} // c14
-, // c15
-@leftPad // c16
-( // c17
-'\x00' // c18
-) // c19
-repeat // c20
-char[ // c21
-0123456789 // c22
-] // c23
-repeatCount // c24
-, // c25
-} // c26
-packet // c27
-Packet // c28
-{ // c29
-} // c30
-")).
-Eval vm_compute in ("<<<M587>>>" ++ check (runes_of_ascii "options{}
-    packet chars {@tag(255 )
-    // `tick` ""quote"" 'q'
-    i8 crc @calculatedFrom( ""\n"" )
-`crlf
-line`, @rightPad(' ' ) repeatCount @lengthOf( zchar
-    // c
-    ) , leftPad {
-    char[]
-    a1
-, match trueish
-as
-Z9_ { ""a\\""
-    : Foo , ""a\""b"": chars , } , zchar[
-42
-] asx	`a\`
-//
-// trailing space 
-, } ,
-@lengthOf( T ) calculatedFrom int,} 	 ")).
-Eval vm_compute in ("<<<M517>>>" ++ check (runes_of_ascii "options { }root packet matchKey { @calculatedFrom(""a\\"" ) repeat
-i32 int`" ++ [233]%N ++ runes_of_ascii "` , } MetaData
-    repeatCount
-    { zchar[ // `tick` ""quote"" 'q'
-1
-    ]stringy  ,o lengthOf `u8 x,` ,
-zchar[42
-    ]	Header , char[ 65535
-] len `say ""hi""`
-    , int16
-crc `" ++ [233]%N ++ runes_of_ascii "` ,
-    char[]u8x ,	}
-root packet	repeatCount{@lengthOf(
-    charz )
-u128
-    ,/// triple
-}")).
-Eval vm_compute in ("<<<M1220>>>" ++ check (runes_of_ascii "root packet
-charz {// packet A { u8 x, }
-float64 rootA`
-`,	@tag(00 )
-    repeat calculatedFrom //	t
-a1
-`say ""hi""`
-    , u8 Foo @lengthOf( T )
-    // `tick` ""quote"" 'q'
-    , /// triple
-}	options {options1 =  i32
-    ; Logon // @lengthOf(
-=""CRC32"" tag
-    // packet A { u8 x, }
-    = ""CRC32""}MetaData
-_x  { u16 msg_type ,
-}
+_x[ 1 
+]
+: u
+	007  :
 
-")).
-Eval vm_compute in ("<<<M199>>>" ++ check (runes_of_ascii "packet
-    body {
-@rightPad(	'0'	) Packet a1 ,asx ,repeatCount
-// trailing space 
-// packet A { u8 x, }
-{// trailing space 
-repeat int64 falsey , },	@rightPad
-// c
-// a // b
-( '0'
-)	match int
-    // " ++ [27880; 37322]%N ++ runes_of_ascii "
-    as T { 4294967296
-: _x, 00 :  string_// c
+uint8x 00
+: f32a
+    ,  """ ++ [233]%N ++ runes_of_ascii "t" ++ [233]%N ++ runes_of_ascii """
+    :
+Packet,
+    [ 42
+	, ""a\""b""
+]	: len 
+    //x
+	, }
 ,
-    [""x y""  ] :  stringy, } ,// packet A { u8 x, }
-uint32 x_y_z
+@lengthOf(
+stringy
+	    // " ++ [128512]%N ++ runes_of_ascii " emoji
+		)	@calculatedFrom( 
+""1"" )
+
+repeat A
+{ char[]
+
+lengthOf	`it's`
+	, }
+	,_x	`" ++ [28040; 24687; 31867; 22411]%N ++ runes_of_ascii "`
 ,
-}")).
-Eval vm_compute in ("<<<M927>>>" ++ check (runes_of_ascii "  options
-    {calculatedFrom = i32 ; // @lengthOf(
-string_
-    =
-    7 uint8x  =// c
-true ;
-    } packet chars { string	stringy @lengthOf(
-    // c
-    stringy )
-, } options{ lengthOf
-// " ++ [27880; 37322]%N ++ runes_of_ascii "
-// c
-= //	t
-'\x00'
-// c
-/// triple
-matchKey ='0' ; Z9_ = string ;
-calculatedFrom =
-true	;
-metadata= ""a	b"" ; }
-")).
-Eval vm_compute in ("<<<M1500>>>" ++ check (runes_of_ascii "root packet Foo // " ++ [128512]%N ++ runes_of_ascii " emoji
-{ } options {
-    // a // b
-    tag // `tick` ""quote"" 'q'
-= //	t
-""""
-    ; u8x = zchar[0  ] }
-MetaData
-    int int {zchar[ 10]
-lengthOf	`` , i64 u8x`// not a comment` ,MetaDataX pack// `tick` ""quote"" 'q'
-`crlf
-line`
-, Logon charz `crlf
-line`
-    ,
-    // a // b
-    }
-")).
-Eval vm_compute in ("<<<M1485>>>" ++ check (runes_of_ascii "root packet Foo // " ++ [128512]%N ++ runes_of_ascii " emoji
-{ } options {
-    // a // b
-    tag // `tick` ""quote"" 'q'
-= //	t
-""""
-    ; u8x = zchar[0  ] ] }
-MetaData
-    int {zchar[ 10]
-lengthOf	`` , i64 u8x`// not a comment` ,MetaDataX pack// `tick` ""quote"" 'q'
-`crlf
-line`
-, Logon charz `crlf
-line`
-    ,
-    // a // b
-    }
-")).
-Eval vm_compute in ("<<<M1412>>>" ++ check (runes_of_ascii "packet root Foo // " ++ [128512]%N ++ runes_of_ascii " emoji
-{ } options {
-    // a // b
-    tag // `tick` ""quote"" 'q'
-= //	t
-""""
-    ; u8x = zchar[0  ] }
-MetaData
-    int {zchar[ 10]
-lengthOf	`` , i64 u8x`// not a comment` ,MetaDataX pack// `tick` ""quote"" 'q'
-`crlf
-line`
-, Logon charz `crlf
-line`
-    ,
-    // a // b
-    }
-")).
-Eval vm_compute in ("<<<M1571>>>" ++ check (runes_of_ascii "root packet Foo // " ++ [128512]%N ++ runes_of_ascii " emoji
-{ } options {
-    // a // b
-    tag // `tick` ""quote"" 'q'
-= //	t
-""""
-    ; u8x = zchar[0  ] }
-MetaData
-    int {zchar[ 10]
-lengthOf	`` , i64 u8x`// not a comment` ,MetaDataX pack// `tick` ""quote"" 'q'
-,
-`crlf
-line` Logon charz `crlf
-line`
-    ,
-    // a // b
-    }
-")).
-Eval vm_compute in ("<<<M4197>>>" ++ check (runes_of_ascii "  root
-packet
-	pack {  body
-,	char[
+
+    @leftPad ('0' )match Foo
+	as
+	crc	{ 
 10
-	]
-options1 ,	@tag(
 
-007) 
-//	t
-		@rightPad
+    : trueish 
+    // " ++ [27880; 37322]%N ++ runes_of_ascii "
+  //
+	,	42 : 	 // " ++ [128512]%N ++ runes_of_ascii " emoji
 
-    (
-    )
-@calculatedFrom( ""\n"") 
-        // " ++ [128512]%N ++ runes_of_ascii " emoji
+	Pad
 
-char[]	tag 
-,  repeat
-
-    char[]  Header
-    ``	,
-
-asx
-
-    {repeat  u8x
-{  repeat
-    u8
-
-x_y_z  ,  }// c
-
-, }
-
+    ,[ 4294967296
+    , ""// no comment""
+	, ""{,}""
+	] :  float , }
     ,
-}	MetaData	pack {  }")).
-Eval vm_compute in ("<<<M469>>>" ++ check (runes_of_ascii "packet calculatedFrom{
-Logon o , }// packet A { u8 x, }
-MetaData As
-// a // b
-// " ++ [27880; 37322]%N ++ runes_of_ascii "
-{ uint32 repeatCount`{ , }` ,zchar[
-    /// triple
-    00 ]
-    T `say ""hi""` , zchar[
-    1 ]  float`two words` , char[	42 ] stringy`// not a comment` ,
-zchar[ 007  ]chars`tab	here` , int16 stringy  ,}")).
-Eval vm_compute in ("<<<M4279>>>" ++ check (runes_of_ascii "
-
-  MetaData
-calculatedFrom
-    {
-char[] lengthOf, } // trailing space 
-	root 	 // " ++ [27880; 37322]%N ++ runes_of_ascii "
-	  packet
-
-_x
-
-{
-    @calculatedFrom(
-    """ ++ [28040; 24687]%N ++ runes_of_ascii """)
-    repeat zchar _x
-,
-	    // packet A { u8 x, }
-		repeat
-    zchar[	42 	 //x
-    ]
-Pad ,
-@tag(
-
-42
+    @lengthOf(  u8x
 	)
 
-    char[  42 ]
-
-    u8x	,  }
+a1 
+    // c
+  // trailing space 
+		@calculatedFrom(
+	""\" ++ [233]%N ++ runes_of_ascii """
+	) // c
+,}
 ")).
-Eval vm_compute in ("<<<M1113>>>" ++ check (runes_of_ascii "  packet
-i64_ {  @leftPad ( )
-char[]u8x//x
-, float
-`line1
-line2`, // " ++ [27880; 37322]%N ++ runes_of_ascii "
-@leftPad() match	roots  as charz {
-[// @lengthOf(
-""abc"" ] :	MetaDataX  ,
-    // trailing space 
-    42 :
-    u128 } , } MetaData
-    i8i8 {char[ 0 ]
-    // " ++ [128512]%N ++ runes_of_ascii " emoji
-    matchKey `it's`
-,
-    }
-")).
-Eval vm_compute in ("<<<M648>>>" ++ check (runes_of_ascii "options { packetx	=' 'chars /// triple
-= ""a\""b"" ; BodyLength
-= false } options{	}
-// " ++ [128512]%N ++ runes_of_ascii " emoji
-// c
-root packet
-A	{
-    @rightPad (
-// a // b
-// @lengthOf(
-'0') crc{
-    i16 calculatedFrom , } , repeat
-i8 Foo
-// trailing space 
-// `tick` ""quote"" 'q'
-,
+Eval vm_compute in ("<<<M1442>>>" ++ check (runes_of_ascii "options {
+    LittleEndian = true;
+    StringPrefixLenType = u64;
+    ArrayPrefixLenType = u8;
+    FixedStringPadChar = '0';
+}
+packet Reject {
+    i32 Ref,
+    repeat f64 OrderId,
+    repeat InNote12 {
+        u8 pad0,
+    },
+    @leftPad(' ') char[6] count,
+}
+packet Logout {
+    zchar[6] Tail,
+    repeat string venue,
+}
+packet Cancel {
+    u64 count,
+    repeat char[5] lastPx,
+    i64 Tail,
+    repeat InF140 {
+        repeat Logout,
+        repeat Reject,
+    },
+}
+root packet Trade {
+    repeat InMsgkind39 {
+        repeat Reject,
+        char[4] Px,
+    },
+    string Acct,
+    uint16 price,
+    f32 OrderId,
+    u16 x,
+    u16 clOrdID @lengthOf(Body),
+    match x as Body {
+        178 : Logout,
+        13 : Cancel,
+        174 : Reject,
+    },
+    u16 Flags @calculatedFrom(""CRC32""),
 }
 ")).
-Eval vm_compute in ("<<<M1200>>>" ++ check (runes_of_ascii "
-packet lengthOf { repeat
-    zchar[
-    10]
-x , @tag( 0123456789  ) char[ 3 ] charz ,
-}root packet i64_{ i64_
-`say ""hi""` ,string Logon `tab	here` ,
-uint64
-//x
-//	t
-pack @calculatedFrom( ""\" ++ [233]%N ++ runes_of_ascii """ ) `two words`
-,
-    } options
-{uint8x =
+Eval vm_compute in ("<<<M1455>>>" ++ check (runes_of_ascii "  options
+
+{ 
+StringPrefixLenType
+
+= u16
+
+    ; 
+ArrayPrefixLenType
+
+    =
+u32
+
+;	FixedStringPadFromLeft
+
+=
+	false ;
+    FixedStringPadChar =
+
 '0'
-; }")).
-Eval vm_compute in ("<<<M1207>>>" ++ check (runes_of_ascii "packet repeatCount{ @rightPad ( )@rightPad // " ++ [27880; 37322]%N ++ runes_of_ascii "
-(
-    // c
-    '\x00' ) matchKey // " ++ [27880; 37322]%N ++ runes_of_ascii "
-@lengthOf( zchar ) ,	match int as  int { 00:Header, }
-    ,
-//x
-/// triple
-@leftPad (
-'\x00')
-    // @lengthOf(
-    repeat o options1`u8 x,`
-    ,}
-")).
-Eval vm_compute in ("<<<M2321>>>" ++ check (runes_of_ascii "MetaData Packet { }packet	asx  { @lengthOf( asx) falsey`crlf
-line`
-,
-    }
-    packet x	{uint32// @lengthOf(
-rootA	,u32 options1 `say ""hi""` `say ""hi""` , @tag( 7
-    )// packet A { u8 x, }
-msg_type @lengthOf(
-stringy	)	, }
+    ; 
+} packet 
+Logout
 
-")).
-Eval vm_compute in ("<<<M402>>>" ++ check (runes_of_ascii "packet
-    falsey{ }MetaData
-    x
-{ body len // @lengthOf(
-, lengthOf trueish `two words` , zchar[// packet A { u8 x, }
-65535	] Header`it's`,  packetx uint8x
-`
-` , int32 As , }
-    // " ++ [128512]%N ++ runes_of_ascii " emoji
-    root packet i8i8
 {
+f64
+    f1
+, i16  Note  , @rightPad	(
+	'\x00'
+    )char[ 11
+
+]
+Flags
+    ,
+
+    } 
+packet
+Cancel  {	float64	msgKind
+	,
+} packet
+
+    Reject{InQty43{float32 
+sym
+,
+
+    char[
+	10 ]
+Tail
+    , uint8
+    venue, uint16
+	f1  ,char[
+9
+
+]	Acct
+
+,  }  ,}
+packet
+
+Trade {
+char[]
+x
+,
+	zchar[
+
+    6 ]
+	Note, repeat  Reject, }
+	root
+	packet
+Order
+{ Cancel
+
+    ,Logout, u64
+Acct
+
+,	u32 
+OrderId,  match
+	OrderId
+as 
+Body {[
+127 
+,	70
+	] : 
+Reject
+,
+177	:
+
+Trade
+
+, 58 
+:
+	Logout , 75:Cancel
+
+,
+}  ,
+u32	Tail@calculatedFrom( ""CRC32""
+
+)
+	,
 }
 ")).
-Eval vm_compute in ("<<<M2286>>>" ++ check (runes_of_ascii "MetaData Packet { }packet	asx  { @lengthOf( asx) falsey`crlf
-line`
+Eval vm_compute in ("<<<M91>>>" ++ check (runes_of_ascii "options{
+T
+    =
+""x y"" ; } packet Z9_ { @leftPad
+    ('0' )
+int16
+Header @calculatedFrom(
+""1""
+    ) , options1 @lengthOf(
+    u8x )
+`// not a comment`
 ,
+    @calculatedFrom(""// no comment"" ) @lengthOf(pack //	t
+) Header {
+i32 // trailing space 
+u
+`{ , }`
+, _x	, char[
+    7 ] crc @lengthOf(i64_)  ,
     }
-    packet x x	{uint32// @lengthOf(
-rootA	,u32 options1 `say ""hi""` , @tag( 7
-    )// packet A { u8 x, }
-msg_type @lengthOf(
-stringy	)	, }
-
-")).
-Eval vm_compute in ("<<<M434>>>" ++ check (runes_of_ascii "MetaData
-    charz { zchar[ 00 ]
-    leftPad
-    `tab	here` , zchar[ //x
-007
-] // " ++ [27880; 37322]%N ++ runes_of_ascii "
-matchKey , crc	matchKey  ,char[
-    1
-// " ++ [27880; 37322]%N ++ runes_of_ascii "
 // a // b
-]
+// c
+, // `tick` ""quote"" 'q'
+float
+@lengthOf(
+roots ) `it's`  , } packet stringy { @rightPad( '\x00' //
+) @rightPad ( //
+'0' )
+// " ++ [27880; 37322]%N ++ runes_of_ascii "
+// packet A { u8 x, }
+@calculatedFrom( """ ++ [28040; 24687]%N ++ runes_of_ascii """ ) string a1 ,
+    f32
+uint8x // packet A { u8 x, }
+@lengthOf( charz
+// c
+// " ++ [128512]%N ++ runes_of_ascii " emoji
+) `two words`
+,
+int32
+x_y_z	@lengthOf( string_  ) //	t
+,
+}
+")).
+Eval vm_compute in ("<<<M1741>>>" ++ check (runes_of_ascii "// top
+root packet msg_type {
+    // c3
+    i64 options1,
+    // c6
+    @lengthOf(f32a)
+    // c9
+    repeat uint16 Foo,// c13a
+    // c13b
+    @calculatedFrom(""x y"")
+    // c16a
+    // c16b
+    repeat int64 pack,// c20a
+    // c20b
+    @leftPad(' ')
+    // c24a
+    // c24b
+    uint8 Foo,
+}
+
+// c28
+packet rootA {
+    // c31
+    f32a x `two words`,
+    char asx @lengthOf(falsey) `u8 x,`,// c42
+    @lengthOf(i64_)
+    // c45
+    uint16 chars,// c48
+    @tag(0)
+    string _x @calculatedFrom(""abc"") `// not a comment`,// c58
+}// c59a
+// c59b")).
+Eval vm_compute in ("<<<M1199>>>" ++ check (runes_of_ascii "// top
+packet // c0
+trueish
+    // c1
+{ repeat // c3
+u32
+    // c4
+MetaDataX // c5a
+  // c5b
+`doc` // c6a
+  // c6b
+, Header
+    // c8
+{
+    // c9
+packetx // c10a
+  // c10b
+o `u8 x,` // c12a
+  // c12b
+, // c13a
+  // c13b
+}
+    // c14
+,
+    // c15
+@leftPad // c16
+( // c17a
+  // c17b
+'\x00' // c18a
+  // c18b
+) repeat char[
+    // c21
+0123456789
+    // c22
+] // c23
+repeatCount // c24
+,
+    // c25
+} // c26a
+  // c26b
+packet // c27
+Packet // c28
+{ // c29a
+  // c29b
+} ")).
+Eval vm_compute in ("<<<M1464>>>" ++ check (runes_of_ascii "options {
+    LittleEndian = false;
+    StringPrefixLenType = u8;
+    ArrayPrefixLenType = u16;
+    FixedStringPadFromLeft = false;
+}
+packet Heartbeat {
+    u8 seqNo,
+    @rightPad('\x00') char[8] x,
+}
+root packet Trade {
+    repeat Heartbeat,
+    float32 OrderId,
+    i64 Acct,
+    u16 Qty,
+    u16 clOrdID,
+    match clOrdID as Body {
+        131 : Heartbeat,
+    },
+    u16 sym @calculatedFrom(""CR\
+C32""),
+}
+")).
+Eval vm_compute in ("<<<M364>>>" ++ check (runes_of_ascii "packet string_{ repeat
+crc {
+As
+@calculatedFrom( ""// no comment"" ) `" ++ [28040; 24687; 31867; 22411]%N ++ runes_of_ascii "` // trailing space 
+,char x_y_z @lengthOf( Header )
+    `u8 x,`
+, } ,} root packet u128{ stringy// a // b
+@lengthOf( options1 ) , } packet i64_
+// " ++ [128512]%N ++ runes_of_ascii " emoji
 // `tick` ""quote"" 'q'
-//	t
-x_y_z ,
-    string_ matchKey `say ""hi""` , }
+{ @lengthOf( u128 )
+@lengthOf(pack
+) char[ 4294967296
+] falsey@calculatedFrom( """ ++ [233]%N ++ runes_of_ascii "t" ++ [233]%N ++ runes_of_ascii """
+// " ++ [27880; 37322]%N ++ runes_of_ascii "
+// trailing space 
+),
+}
 ")).
-Eval vm_compute in ("<<<M2368>>>" ++ check (runes_of_ascii "MetaData Packet { }packet	asx  { @lengthOf( asx) falsey`crlf
-line`
-,
-    }
-    packet x	{uint32// @lengthOf(
-rootA	,u32 options1 `say ""hi""` , @tag( 7
-    )// packet A { u8 x, }
-msg_type @lengthOf(
-stringy	)	0 }
-
+Eval vm_compute in ("<<<M123>>>" ++ check (runes_of_ascii "MetaData len /// triple
+{ //
+f64 T
+`u8 x,` , rootA	stringy ,  zchar repeatCount`say ""hi""` ,
+    MetaDataX As ,i8i8 string_, x_y_z f32a , } options // c
+{ Logon
+    //
+    =
+    string float =  string
+    A =
+""abc""/// triple
+;
+    //
+    A =
+""\" ++ [233]%N ++ runes_of_ascii """Logon =7	}
+    options{ }  options {
+    packetx = ""abc""// c
+; x =
+    true
+}
 ")).
-Eval vm_compute in ("<<<M2263>>>" ++ check (runes_of_ascii "MetaData Packet { }packet	asx  { @lengthOf( asx) u64`crlf
-line`
+Eval vm_compute in ("<<<M318>>>" ++ check (runes_of_ascii "
+packet As { @leftPad
+( )
+    @leftPad ( ' '  )char[] zchar, A string_
+`" ++ [233]%N ++ runes_of_ascii "`
 ,
-    }
-    packet x	{uint32// @lengthOf(
-rootA	,u32 options1 `say ""hi""` , @tag( 7
-    )// packet A { u8 x, }
-msg_type @lengthOf(
-stringy	)	, }
-
-")).
-Eval vm_compute in ("<<<M2355>>>" ++ check (runes_of_ascii "MetaData Packet { }packet	asx  { @lengthOf( asx) falsey`crlf
-line`
-,
-    }
-    packet x	{uint32// @lengthOf(
-rootA	,u32 options1 `say ""hi""` , @tag( 7
-    )// packet A { u8 x, }
-msg_type @lengthOf(
-	)	, }
-
-")).
-Eval vm_compute in ("<<<M33>>>" ++ check (runes_of_ascii "packet BodyLength{//	t
-x
-f32a
-    `line1
-line2`
-,
-@calculatedFrom( ""a\\""
-)@lengthOf(
-repeatCount
-) i8 Header
-    `{ , }` ,float64	leftPad@calculatedFrom(	""\" ++ [233]%N ++ runes_of_ascii """)
-,@calculatedFrom(  ""1"") uint64 o, } 	 ")).
-Eval vm_compute in ("<<<M174>>>" ++ check (runes_of_ascii "packet  f32a
-    {//
-match
+a1
+    {	Z9_ @lengthOf(
+    repeatCount )
+    , u128
+{ zchar[4294967296 ] crc
 //x
 //
-o
-    // trailing space 
-    as As { 10: //
-roots
-,// " ++ [27880; 37322]%N ++ runes_of_ascii "
-[
-255 // a // b
-, 42 ,
-    10 ,  00 ]:
-    matchKey ,
-} ,
-}
-    options { u128 = 65535 Packet = 3
-;
-}")).
-Eval vm_compute in ("<<<M3425>>>" ++ check (runes_of_ascii "// top
+@calculatedFrom(  ""packet"" ) ,repeat char x_y_z, }
+,	u8
+    Logon	@calculatedFrom(
+    """ ++ [233]%N ++ runes_of_ascii "t" ++ [233]%N ++ runes_of_ascii """ ) , }, }
 packet
-    // c0
-Inner { // c2a
-  // c2b
-u8 a // c4a
-  // c4b
-, } root
-    // c7
-packet // c8a
-  // c8b
-P // c9
-{ // c10
-Inner ref_obj , u8 x
-    // c15
+u { } // " ++ [128512]%N ++ runes_of_ascii " emoji")).
+Eval vm_compute in ("<<<M302>>>" ++ check (runes_of_ascii "packet calculatedFrom {
+    @lengthOf( zchar )	char[]// `tick` ""quote"" 'q'
+chars
+    `line1
+line2` ,string
+    Logon @calculatedFrom( ""it's""  ), matchKey `say ""hi""`, @lengthOf( T
+    // c
+    )
+x_y_z @calculatedFrom(
+    ""it's"" ) `// not a comment`	,
+    }")).
+Eval vm_compute in ("<<<M359>>>" ++ check (runes_of_ascii "
+MetaData falsey
+{uint64
+matchKey
+`// not a comment` ,	char Pad
+    ,
+    int16 Pad
+// packet A { u8 x, }
+// @lengthOf(
+`" ++ [28040; 24687; 31867; 22411]%N ++ runes_of_ascii "`// @lengthOf(
 ,
-    // c16
-}
-    // c17
+    zchar[ 00 ]x_y_z, char[] // packet A { u8 x, }
+i64_ , Logon repeatCount `tab	here` ,}")).
+Eval vm_compute in ("<<<M419>>>" ++ check (runes_of_ascii "options
+{
+matchKey = 42/// triple
+x char['0' ;
+// packet A { u8 x, }
+//
+charz
+=
+// packet A { u8 x, }
+// trailing space 
+true  ; } MetaData BodyLength
+{
+uint8
+pack,zchar[ 1]float ,  float32 x_y_z `` ,u32
+_x,i16 body  , }
 ")).
-Eval vm_compute in ("<<<M3899>>>" ++ check (runes_of_ascii "// @lengthOf(
-MetaData pack {
-    char[255] options1,
-    uint64 lengthOf,
-    int32 roots,
+Eval vm_compute in ("<<<M452>>>" ++ check (runes_of_ascii "options
+{
+matchKey = 42/// triple
+x='0' ;
+// packet A { u8 x, }
+//
+charz
+=
+// packet A { u8 x, }
+// trailing space 
+true  ; } } MetaData BodyLength
+{
+uint8
+pack,zchar[ 1]float ,  float32 x_y_z `` ,u32
+_x,i16 body  , }
+")).
+Eval vm_compute in ("<<<M579>>>" ++ check (runes_of_ascii "options
+{
+matchKey = 42/// triple
+x='0' ;
+// packet A { u8 x, }
+//
+charz
+=
+// packet A { u8 x, }
+// trailing space 
+true  ; } MetaData BodyLength
+{
+uint8
+pack,zchar[ 1]float ,  float32 x_y_z `` ,u32
+_x,i16 body  , }
+" ++ [127]%N)).
+Eval vm_compute in ("<<<M523>>>" ++ check (runes_of_ascii "options
+{
+matchKey = 42/// triple
+x='0' ;
+// packet A { u8 x, }
+//
+charz
+=
+// packet A { u8 x, }
+// trailing space 
+true  ; } MetaData BodyLength
+{
+uint8
+pack,zchar[ 1]float ,  float32 x_y_z , ``u32
+_x,i16 body  , }
+")).
+Eval vm_compute in ("<<<M489>>>" ++ check (runes_of_ascii "options
+{
+matchKey = 42/// triple
+x='0' ;
+// packet A { u8 x, }
+//
+charz
+=
+// packet A { u8 x, }
+// trailing space 
+true  ; } MetaData BodyLength
+{
+uint8
+pack,f32 1]float ,  float32 x_y_z `` ,u32
+_x,i16 body  , }
+")).
+Eval vm_compute in ("<<<M1853>>>" ++ check (runes_of_ascii "options {
+    matchKey = 42/// triple
+    x = '0';
+    // packet A { u8 x, }
+    //
+    charz = true;
 }
 
-root packet Packet {
-    // c
-    @calculatedFrom(""{,}"")
-    string zchar `" ++ [28040; 24687; 31867; 22411]%N ++ runes_of_ascii "`,
+MetaData BodyLength {
+    uint8 pack,
+    zchar[1] float,
+    float32 x_y_z,
+    u32 _x,
+    i16 body,
 }")).
-Eval vm_compute in ("<<<M960>>>" ++ check (runes_of_ascii "// packet A { u8 x, }
-packet  BodyLength  {
-    @tag( 255 ) repeat
-uint64 f32a
-    , }packet
-chars { }
-MetaData zchar { char[] tag`a\` ,
-    body Logon `tab	here`	, }
+Eval vm_compute in ("<<<M2038>>>" ++ check (runes_of_ascii "packet 
+x_y_z
+{ }
+
+packet Logon {
+repeat i8 int ,
+
+}
+
+root  packet stringy
+	{char
+    chars  , char[]
+a1  @calculatedFrom(
+    ""// no comment""
+	) `// not a comment`
+
+    , 
+string	Logon,	}
+
 ")).
-Eval vm_compute in ("<<<M374>>>" ++ check (runes_of_ascii "
-packet
-// " ++ [27880; 37322]%N ++ runes_of_ascii "
-// c
-MetaDataX
-{ repeat repeatCount i64_ , T `crlf
-line`,	}packet As
-    {
-    @tag( 10
-) @lengthOf(
-    u8x
+Eval vm_compute in ("<<<M666>>>" ++ check (runes_of_ascii "// c
+packet i64_ {	char[] calculatedFrom , , } packet
+trueish  {@calculatedFrom(
+""a\\"" ) o { i32 falsey@lengthOf( uint8x ),
+} , } // `tick` ""quote"" 'q'
+options {// c
+Z9_ = ' '//
+}
+")).
+Eval vm_compute in ("<<<M709>>>" ++ check (runes_of_ascii "// c
+packet i64_ {	char[] calculatedFrom , } packet
+trueish  {@calculatedFrom(
+""a\\"" ) o { i32 falsey@lengthOf( uint8x ),
+} , } // `tick` ""quote"" 'q'
+options {// c
+Z9_  ' '//
+}
+")).
+Eval vm_compute in ("<<<M565>>>" ++ check (runes_of_ascii "options
+{
+matchKey = 42/// triple
+x='0' ;
+// packet A { u8 x, }
 //
-// @lengthOf(
-) zchar[ 7 ] Foo , }
-")).
-Eval vm_compute in ("<<<M3569>>>" ++ check (runes_of_ascii "packet A {
+charz
+=
+// packet A { u8 x, }
+// trailing space 
+true  ; } MetaData BodyLength
+{
+uint8
+pack,zchar[ ")).
+Eval vm_compute in ("<<<M1910>>>" ++ check (runes_of_ascii "packet A {
     match k as n {
         [
             1, 22, ""c c"", 4, 5,
@@ -1998,401 +913,244 @@ Eval vm_compute in ("<<<M3569>>>" ++ check (runes_of_ascii "packet A {
         2 : C,
     },
 }")).
-Eval vm_compute in ("<<<M3476>>>" ++ check (runes_of_ascii "packet
+Eval vm_compute in ("<<<M1571>>>" ++ check (runes_of_ascii "root packet f32a {
+    char[] x_y_z `doc`,
+    @calculatedFrom(""CRC32"")
+    A tag `u8 x,`,
+    int,
+}
+
+options {
+    Packet = ""1"";
+}
+
+options {
+}")).
+Eval vm_compute in ("<<<M1367>>>" ++ check (runes_of_ascii "options{	LittleEndian	= true	;	}
+
+    root
+packet
+	P
+	{
+
+    u16
+
+    a ,
+u32
+    Sum
+@calculatedFrom( ""CRC32""
+	) 
+,
+
+    }
+")).
+Eval vm_compute in ("<<<M1656>>>" ++ check (runes_of_ascii "
+packet
+	calculatedFrom
+
+{
+    @tag( 
+4294967296)u msg_type 
+, 
+char[ 
+3 ]
+    // c
+  	crc@lengthOf(
+    len
+	)`u8 x,`
+
+,  }
+
+")).
+Eval vm_compute in ("<<<M644>>>" ++ check (runes_of_ascii "MetaData
+    // trailing space 
+    matchKey
+{ u64 chars // a // b
+'1' ,char[] lengthOf `// not a comment`
+    , //	t
+}")).
+Eval vm_compute in ("<<<M634>>>" ++ check (runes_of_ascii "MetaData
+    // trailing space 
+    matchKey
+{ u64 chars // a // b
+,char[] lengthOf `// not a comment`
+    as //	t
+}")).
+Eval vm_compute in ("<<<M1763>>>" ++ check (runes_of_ascii "MetaData
+float
+
+{ } options
+{ msg_type=
+
+""a	b""
+i8i8 =true stringy
+	= 
+""CRC32"" 
+}
+options
+{ 
+len
+
+    =
+
+""\" ++ [233]%N ++ runes_of_ascii """  } ")).
+Eval vm_compute in ("<<<M659>>>" ++ check (runes_of_ascii "MetaData
+    // trailing space 
+    matchKey
+{ u64 x" ++ [178]%N ++ runes_of_ascii " // a // b
+,char[] lengthOf `// not a comment`
+    , //	t
+}")).
+Eval vm_compute in ("<<<M621>>>" ++ check (runes_of_ascii "MetaData
+    // trailing space 
+    matchKey
+{ u64 chars // a // b
+,char[]  `// not a comment`
+    , //	t
+}")).
+Eval vm_compute in ("<<<M1358>>>" ++ check (runes_of_ascii "
+packet	B  { u8
+    a	,	string s	, }
+root packet
+
+    P {	u16
+
+L
+	@lengthOf( B)	,
+B,
+u8
+t
+	,
+
+    } ")).
+Eval vm_compute in ("<<<M1269>>>" ++ check (runes_of_ascii "packet calculatedFrom { @tag( 4294967296 ) u msg_type , // c
+char[ 3 ] crc @lengthOf( len ) `u8 x,` , }")).
+Eval vm_compute in ("<<<M888>>>" ++ check (runes_of_ascii "packet A {
+  match k as n {
+    [""a"", ""bb"", 007, ""d"", ""e"", 66, ""g"", ""h"", 9, ""j""] : B
+    2 : C
+  },
+}")).
+Eval vm_compute in ("<<<M2030>>>" ++ check (runes_of_ascii "
+
+  packet
+
 A
 
-{ u8
-
-    a
-    ,
-
-}
-	packet
-B
 {
-u16 b
+	Inner{
+    u8 x	`a
+    b
+  c`
 ,
-    }
-    root
-packet P{
-u8
-K  ,match K	as M
-	{
-[ 1 ,
-	2
-] : A , 3	: B , 
-7 
-:	A, 
-} , }
+
+    Deep {u8	y`a
+    b
+  c`, 
+}
+,
+}	, }
 ")).
-Eval vm_compute in ("<<<M215>>>" ++ check (runes_of_ascii "MetaData tag { zchar[ // a // b
-007 ]BodyLength ``
-    // packet A { u8 x, }
-    , } root packet MetaDataX {
-string_
-    @lengthOf(
-Header) ,}
+Eval vm_compute in ("<<<M1147>>>" ++ check (runes_of_ascii "packet Logon { @tag( 42 ) @rightPad ( ' '
+// c
+) @leftPad ( ) repeat trueish { string T , } , }")).
+Eval vm_compute in ("<<<M871>>>" ++ check (runes_of_ascii "packet A {
+  match k as n {
+    [""a"", 22, ""c c"", 4, ""e"", 66, ""g"", 8, ""i""] : B
+    2 : C
+  },
+}")).
+Eval vm_compute in ("<<<M848>>>" ++ check (runes_of_ascii "packet A {
+  match k as n {
+    [""a"", ""bb"", 007, ""d"", ""e"", 66, ""g""] : B,
+    2 : C
+  },
+}")).
+Eval vm_compute in ("<<<M1797>>>" ++ check (runes_of_ascii "packet A {
+    match k as n {
+        [1, ""bb"", 007, ""d""] : B,
+        2 : C,
+    },
+}")).
+Eval vm_compute in ("<<<M1247>>>" ++ check (runes_of_ascii "packet o { @tag( 42 ) repeat x { char[ 0123456789 ] i64_ , } , } options { }
+// c
 ")).
-Eval vm_compute in ("<<<M778>>>" ++ check (runes_of_ascii "root
-    packet leftPad
-{ @tag( 65535) tag
-Pad, char[] o
-    @lengthOf( float) , }packet
+Eval vm_compute in ("<<<M1230>>>" ++ check (runes_of_ascii "packet o { @tag( 42 ) repeat x { char[ 0123456789 ] // c
+i64_ , } , } options { }")).
+Eval vm_compute in ("<<<M1996>>>" ++ check (runes_of_ascii "MetaData zchar {
+    // c2a
+    // c2b
+    zchar[3] Pad,// c7a
+    // c7b
+}// c8")).
+Eval vm_compute in ("<<<M445>>>" ++ check (runes_of_ascii "options
+{
+matchKey = 42/// triple
+x='0' ;
+// packet A { u8 x, }
 //
-//	t
-A {char[] T @lengthOf(
-    packetx ),  }
-")).
-Eval vm_compute in ("<<<M3660>>>" ++ check (runes_of_ascii "
-options 
-{ tag
-    =
-    ""// no comment""	/// triple
-
-calculatedFrom
-= 10
-	Packet  
-  // `tick` ""quote"" 'q'
-      =  '0'
-
-;}
-// a // b")).
-Eval vm_compute in ("<<<M1700>>>" ++ check (runes_of_ascii "root packet /// triple
-rootA {	i32
-MetaDataX@calculatedFrom( ""CRC32"" ) `line1
-line2` , } MetaData BodyLength {
-""a\\""
-rootA, } // c")).
-Eval vm_compute in ("<<<M1728>>>" ++ check (runes_of_ascii "root packet /// triple
-root%A {	i32
-MetaDataX@calculatedFrom( ""CRC32"" ) `line1
-line2` , } MetaData BodyLength {
-u8
-rootA, } // c")).
-Eval vm_compute in ("<<<M1672>>>" ++ check (runes_of_ascii "root packet /// triple
-rootA {	i32
-MetaDataX@calculatedFrom( ""CRC32"" ) `line1
-line2`  } MetaData BodyLength {
-u8
-rootA, } // c")).
-Eval vm_compute in ("<<<M1831>>>" ++ check (runes_of_ascii "packet
-    Pad // a // b
-{ i8i8 @calculatedFrom( ""a	b"") `u8 x,` ,
-} options options{ float// " ++ [128512]%N ++ runes_of_ascii " emoji
-= f64 i64_
-=//	t
-00 }
-")).
-Eval vm_compute in ("<<<M3687>>>" ++ check (runes_of_ascii "packet
-    A
-{  match
-k  as n
-	{
-
-[ 1 
-,
-    22  ,	""c c""  ,4
-    , 
-5  ,
-
-    ""f""  ,
-	7, 
-8
-
-    ]	:B, 2
-    :C} ,
-}
-")).
-Eval vm_compute in ("<<<M4502>>>" ++ check (runes_of_ascii "packet uint8x {
-    char[7] stringy @calculatedFrom(""a\""b"") `tab	here`,// c
-    @calculatedFrom(""abc"")
-    Logon roots,
+charz
+=")).
+Eval vm_compute in ("<<<M806>>>" ++ check (runes_of_ascii "packet A {
+  match k as n {
+    [""a"", 22, ""c c"", 4] : B
+    2 : C
+  },
 }")).
-Eval vm_compute in ("<<<M1885>>>" ++ check (runes_of_ascii "packet
-    Pad // a // b
-{ i8i8 @calculatedFrom( ""a	b"") `u8 x,` ,
-} options{ float// " ++ [128512]%N ++ runes_of_ascii " emoji
-= f64 i64_
-=//	t
-$ 00 }
-")).
-Eval vm_compute in ("<<<M790>>>" ++ check (runes_of_ascii "// @lengthOf(
-packet u128
-    // `tick` ""quote"" 'q'
-    { char[ 0123456789 // " ++ [27880; 37322]%N ++ runes_of_ascii "
-]A @lengthOf( Packet  ) `u8 x,`, }
-")).
-Eval vm_compute in ("<<<M1810>>>" ++ check (runes_of_ascii "packet
-    Pad // a // b
-{ i8i8 @calculatedFrom( ""a	b"" `u8 x,` ,
-} options{ float// " ++ [128512]%N ++ runes_of_ascii " emoji
-= f64 i64_
-=//	t
-00 }
-")).
-Eval vm_compute in ("<<<M691>>>" ++ check (runes_of_ascii "packet o
-{ } packet  MetaDataX{
-} root packet u8x {MetaDataX @calculatedFrom(""\n"" ) ,
-    } // packet A { u8 x, }")).
-Eval vm_compute in ("<<<M574>>>" ++ check (runes_of_ascii "options
-{ x_y_z = /// triple
-i32 ; } MetaData
-_x
-{
-    //x
-    chars Foo // `tick` ""quote"" 'q'
-,i32 Header ,}
-")).
-Eval vm_compute in ("<<<M3704>>>" ++ check (runes_of_ascii "packet	Logon{	@tag(42 )  @rightPad
-    (  ' ')
-
-@leftPad () repeat
-trueish
-{string	T	// c
-	,
-	}
-,
-
-    }")).
-Eval vm_compute in ("<<<M4248>>>" ++ check (runes_of_ascii "packet calculatedFrom {
-    @tag(4294967296)
-    u msg_type,
-    char[3] crc @lengthOf(len) `u8 x,`,
-}// c")).
-Eval vm_compute in ("<<<M3337>>>" ++ check (runes_of_ascii "// c
-packet calculatedFrom { @tag( 4294967296 ) u msg_type , char[ 3 ] crc @lengthOf( len ) `u8 x,` , }")).
-Eval vm_compute in ("<<<M3370>>>" ++ check (runes_of_ascii "packet calculatedFrom { @tag( 4294967296 ) u msg_type , char[ 3 ] crc @lengthOf( len )
+Eval vm_compute in ("<<<M1312>>>" ++ check (runes_of_ascii "MetaData _x
 // c
-`u8 x,` , }")).
-Eval vm_compute in ("<<<M4286>>>" ++ check (runes_of_ascii "packet o {
-    // c
-    @tag(42)
-    repeat x {
-        char[0123456789] i64_,
-    },
-}
-
-options {
-}")).
-Eval vm_compute in ("<<<M2967>>>" ++ check (runes_of_ascii "packet A {
+{ zchar[ 4294967296 ] lengthOf `// not a comment` , }")).
+Eval vm_compute in ("<<<M795>>>" ++ check (runes_of_ascii "packet A {
   match k as n {
-    [1, ""bb"", 007, ""d"", 5, ""f"", 7, ""h"", 9, ""j""] : B,
+    [1, 22, ""c c""] : B
     2 : C
   },
 }")).
-Eval vm_compute in ("<<<M2956>>>" ++ check (runes_of_ascii "packet A {
+Eval vm_compute in ("<<<M782>>>" ++ check (runes_of_ascii "packet A {
   match k as n {
-    [""a"", 22, ""c c"", 4, ""e"", 66, ""g"", 8, ""i""] : B,
+    [1, ""bb""] : B
     2 : C
   },
 }")).
-Eval vm_compute in ("<<<M3246>>>" ++ check (runes_of_ascii "packet Logon { @tag( 42 ) @rightPad ( ' ' ) @leftPad ( ) repeat trueish { // c
-string T , } , }")).
-Eval vm_compute in ("<<<M2976>>>" ++ check (runes_of_ascii "packet A {
-  match k as n {
-    [1, 22, 007, 4, 5, 66, 7, 8, 9, 10, 11] : B,
-    2 : C
-  },
+Eval vm_compute in ("<<<M1730>>>" ++ check (runes_of_ascii "packet A {
+    //	t
+    /// triple
+    repeat char[] _x,
 }")).
-Eval vm_compute in ("<<<M966>>>" ++ check (runes_of_ascii "
-MetaData
-    Logon{
-u16 i64_,float calculatedFrom , u16 Header, zchar[  255]  x_y_z, }
-")).
-Eval vm_compute in ("<<<M555>>>" ++ check (runes_of_ascii "
-options {
-    len
-= char[
-10 ]
-    asx =
-false
-; string_ = """"; } // `tick` ""quote"" 'q'")).
-Eval vm_compute in ("<<<M4134>>>" ++ check (runes_of_ascii "
-packet  Z9_
-{
-
-} // a // b
-	  root packet
-
-    roots
-    { 
-        /// triple
-	}")).
-Eval vm_compute in ("<<<M1978>>>" ++ check (runes_of_ascii "root
-packet crc
-    { @calculatedFrom( f32a """ ++ [233]%N ++ runes_of_ascii "t" ++ [233]%N ++ runes_of_ascii """ )
-    `say ""hi""`, lengthOf `` ,  }")).
-Eval vm_compute in ("<<<M3426>>>" ++ check (runes_of_ascii "
-packet	Inner	{u8 a
-,
-}
-	root
-    packet 
-P
-
-    { 
-Inner 
-ref_obj
-,
-u8
-
-x , 
-}
-")).
-Eval vm_compute in ("<<<M4316>>>" ++ check (runes_of_ascii "
-options
-
-{ }
-
-    packet
-    string_
-	{@rightPad (	'0'  // c
-	) u16	body , }
-
-")).
-Eval vm_compute in ("<<<M3313>>>" ++ check (runes_of_ascii "packet o { @tag( 42 ) repeat x { char[
-// c
-0123456789 ] i64_ , } , } options { }")).
-Eval vm_compute in ("<<<M2908>>>" ++ check (runes_of_ascii "packet A {
-  match k as n {
-    [""a"", ""bb"", 007, ""d"", ""e""] : B,
-    2 : C
-  },
-}")).
-Eval vm_compute in ("<<<M2904>>>" ++ check (runes_of_ascii "packet A {
-  match k as n {
-    [""a"", 22, ""c c"", 4, ""e""] : B,
-    2 : C
-  },
-}")).
-Eval vm_compute in ("<<<M2911>>>" ++ check (runes_of_ascii "packet A {
-  match k as n {
-    [1, 22, 007, 4, 5, 66] : B,
-    2 : C
-  },
-}")).
-Eval vm_compute in ("<<<M687>>>" ++ check (runes_of_ascii "packet asx
-{
-metadata// a // b
-@calculatedFrom( ""// no comment"" ) ,
-}
-
-")).
-Eval vm_compute in ("<<<M2893>>>" ++ check (runes_of_ascii "packet A {
-  match k as n {
-    [1, 22, ""c c"", 4] : B,
-    2 : C
-  },
-}")).
-Eval vm_compute in ("<<<M3405>>>" ++ check (runes_of_ascii "MetaData _x { zchar[ 4294967296 ] // c
-lengthOf `// not a comment` , }")).
-Eval vm_compute in ("<<<M1204>>>" ++ check (runes_of_ascii "packet
-    tag
-{ //
-@tag(
-    007)
-@tag( 007 ) u T `it's`, }
-// c
-")).
-Eval vm_compute in ("<<<M2274>>>" ++ check (runes_of_ascii "MetaData Packet { }packet	asx  { @lengthOf( asx) falsey`crlf
-line`")).
-Eval vm_compute in ("<<<M322>>>" ++ check (runes_of_ascii "root packet matchKey { } packet msg_type{	char[ 65535]
-falsey ,}
-")).
-Eval vm_compute in ("<<<M1287>>>" ++ check (runes_of_ascii "MetaData falsey{ // a // b
-char[]	pack ,string int `u8 x,` , }
-")).
-Eval vm_compute in ("<<<M2742>>>" ++ check (runes_of_ascii "[ ) repeatCount repeat float32 { uint8 int16 ""it's"" int64 : ;")).
-Eval vm_compute in ("<<<M3430>>>" ++ check (runes_of_ascii "root packet P {
-    hdr {
-        u8 a,
-    },
-    u8 x,
-}
-")).
-Eval vm_compute in ("<<<M1945>>>" ++ check (runes_of_ascii "
-packet	As { @calculatedFrom(//x
-" ++ [8232]%N ++ runes_of_ascii " ""{,}""	)lengthOf , } 	 ")).
-Eval vm_compute in ("<<<M629>>>" ++ check (runes_of_ascii "options  { options1 =
-    65535
-    ; msg_type= u64} 	 ")).
-Eval vm_compute in ("<<<M1928>>>" ++ check (runes_of_ascii "
-packet	As { @calculatedFrom(//x
-""{,}""	)char[] , } 	 ")).
-Eval vm_compute in ("<<<M1759>>>" ++ check (runes_of_ascii "options { }options '\x00'  } // `tick` ""quote"" 'q'")).
-Eval vm_compute in ("<<<M2419>>>" ++ check (runes_of_ascii "MetaData A
-{
-i64
-chars	, }# // `tick` ""quote"" 'q'")).
-Eval vm_compute in ("<<<M1757>>>" ++ check (runes_of_ascii "options { }options { {  } // `tick` ""quote"" 'q'")).
-Eval vm_compute in ("<<<M1774>>>" ++ check (runes_of_ascii "options { }options {  ~} // `tick` ""quote"" 'q'")).
-Eval vm_compute in ("<<<M4133>>>" ++ check (runes_of_ascii "
-
-  MetaData
-    BodyLength  //	t
-	{
+Eval vm_compute in ("<<<M776>>>" ++ check (runes_of_ascii "packet A { Inner { match k as n { [1] : B, }, }, }")).
+Eval vm_compute in ("<<<M60>>>" ++ check (runes_of_ascii "root packet u
+    /// triple
+    {
     }
 ")).
-Eval vm_compute in ("<<<M2754>>>" ++ check (runes_of_ascii "options1 : int64 match @lengthOf( 007 65535")).
-Eval vm_compute in ("<<<M2144>>>" ++ check (runes_of_ascii "Met'1'aData x
-{// " ++ [128512]%N ++ runes_of_ascii " emoji
-i16 stringy , }")).
-Eval vm_compute in ("<<<M2609>>>" ++ check (runes_of_ascii "packet A { match k as n { [[1]] : B }, }")).
-Eval vm_compute in ("<<<M561>>>" ++ check (runes_of_ascii "options{ repeatCount =007 ;} /// triple")).
-Eval vm_compute in ("<<<M2126>>>" ++ check (runes_of_ascii "MetaData x
-{// " ++ [128512]%N ++ runes_of_ascii " emoji
-i16 stringy } ,")).
-Eval vm_compute in ("<<<M2695>>>" ++ check ([65533]%N ++ runes_of_ascii "-" ++ [20; 65533]%N ++ runes_of_ascii "?" ++ [65533; 65533]%N ++ runes_of_ascii "&" ++ [65533]%N ++ runes_of_ascii "G" ++ [65533]%N ++ runes_of_ascii "i" ++ [65533; 8; 65533; 65533]%N ++ runes_of_ascii "*b2" ++ [65533; 65533]%N ++ runes_of_ascii "(" ++ [65533; 65533]%N ++ runes_of_ascii "~" ++ [65533; 65533]%N ++ runes_of_ascii "]n" ++ [65533; 65533; 65533; 65533; 12465]%N ++ runes_of_ascii "4E" ++ [20]%N)).
-Eval vm_compute in ("<<<M2558>>>" ++ check (runes_of_ascii "packet A { repeat x @lengthOf(y), }")).
-Eval vm_compute in ("<<<M2151>>>" ++ check (runes_of_ascii "MetaData x
-{// " ++ [128512]%N ++ runes_of_ascii " emoji
-i16 " ++ [21517; 23383]%N ++ runes_of_ascii " , }")).
-Eval vm_compute in ("<<<M51>>>" ++ check (runes_of_ascii "options
-{ string_ = //	t
-007 }
-")).
-Eval vm_compute in ("<<<M2853>>>" ++ check (runes_of_ascii "$+K" ++ [807]%N ++ runes_of_ascii "j6N" ++ [31; 65533]%N ++ runes_of_ascii "x" ++ [65533; 65533; 65533]%N ++ runes_of_ascii "+" ++ [65533]%N ++ runes_of_ascii "d" ++ [15; 65533]%N ++ runes_of_ascii "m" ++ [65533; 23]%N ++ runes_of_ascii "+" ++ [24; 1; 65533; 65533; 65533]%N ++ runes_of_ascii "cb" ++ [65533]%N)).
-Eval vm_compute in ("<<<M3008>>>" ++ check (runes_of_ascii "packet A {
+Eval vm_compute in ("<<<M1641>>>" ++ check (runes_of_ascii "options {
+    a = 1;// a
+    b = 2// b
+}")).
+Eval vm_compute in ("<<<M1506>>>" ++ check (runes_of_ascii "
+// c
+
+options
+{
+    u8x
+    = 3	} ")).
+Eval vm_compute in ("<<<M737>>>" ++ check (runes_of_ascii "S`buy#HcxP6RJwc!T3?Vo9C!:o*Kywe")).
+Eval vm_compute in ("<<<M940>>>" ++ check (runes_of_ascii "packet A {
     u8 x `a
+
 b`,
 }")).
-Eval vm_compute in ("<<<M849>>>" ++ check (runes_of_ascii "
-options	{ falsey = """" ; }
+Eval vm_compute in ("<<<M1302>>>" ++ check (runes_of_ascii "packet lengthOf { } // c
 ")).
-Eval vm_compute in ("<<<M2072>>>" ++ check (runes_of_ascii "MetaData A { u64 pack, , }")).
-Eval vm_compute in ("<<<M2099>>>" ++ check (runes_of_ascii "MetaData A { u64 na" ++ [239]%N ++ runes_of_ascii "ve, }")).
-Eval vm_compute in ("<<<M2073>>>" ++ check (runes_of_ascii "MetaData A { u64 pack} ,")).
-Eval vm_compute in ("<<<M225>>>" ++ check (runes_of_ascii "packet
-    matchKey{ }
+Eval vm_compute in ("<<<M319>>>" ++ check (runes_of_ascii "MetaData
+    i64_ { }
 ")).
-Eval vm_compute in ("<<<M1299>>>" ++ check (runes_of_ascii "  packet f32a {
-    }
-")).
-Eval vm_compute in ("<<<M2857>>>" ++ check ([65533; 65533]%N ++ runes_of_ascii "0" ++ [65533; 65533; 65533; 65533]%N ++ runes_of_ascii "%?" ++ [65533; 11]%N ++ runes_of_ascii "h" ++ [65533; 65533]%N ++ runes_of_ascii "p" ++ [65533; 65533]%N ++ runes_of_ascii "|" ++ [65533; 65533; 65533]%N)).
-Eval vm_compute in ("<<<M563>>>" ++ check (runes_of_ascii "
-root
-packet o {}")).
-Eval vm_compute in ("<<<M585>>>" ++ check (runes_of_ascii "MetaData
-float {}
-")).
-Eval vm_compute in ("<<<M3096>>>" ++ check (runes_of_ascii "packet A {
+Eval vm_compute in ("<<<M975>>>" ++ check (runes_of_ascii "packet A {
 }
-// c" ++ [8232]%N)).
-Eval vm_compute in ("<<<M2632>>>" ++ check (runes_of_ascii "packet A { } // c")).
-Eval vm_compute in ("<<<M1975>>>" ++ check (runes_of_ascii "root
-packet crc")).
-Eval vm_compute in ("<<<M3157>>>" ++ check (runes_of_ascii "
-
-  packet A {}")).
-Eval vm_compute in ("<<<M2410>>>" ++ check (runes_of_ascii "MetaData A
-{")).
-Eval vm_compute in ("<<<M2833>>>" ++ check (runes_of_ascii "x" ++ [65533; 27; 65533; 65533]%N ++ runes_of_ascii "c" ++ [65533; 65533; 65533]%N ++ runes_of_ascii "T")).
-Eval vm_compute in ("<<<M2461>>>" ++ check (runes_of_ascii "repeats")).
-Eval vm_compute in ("<<<M191>>>" ++ check (runes_of_ascii "//
-
-
-")).
-Eval vm_compute in ("<<<M3085>>>" ++ check (runes_of_ascii "// c" ++ [8192]%N)).
-Eval vm_compute in ("<<<M2524>>>" ++ check (runes_of_ascii "0x10")).
-Eval vm_compute in ("<<<M2541>>>" ++ check (runes_of_ascii "a	b")).
-Eval vm_compute in ("<<<M2681>>>" ++ check (runes_of_ascii "		")).
+// c ")).
+Eval vm_compute in ("<<<M1056>>>" ++ check (runes_of_ascii "// c" ++ [6158]%N ++ runes_of_ascii "
+packet A {
+}")).
+Eval vm_compute in ("<<<M126>>>" ++ check (runes_of_ascii "packet	float{ }")).
+Eval vm_compute in ("<<<M1039>>>" ++ check (runes_of_ascii "// c 	")).
+Eval vm_compute in ("<<<M726>>>" ++ check (runes_of_ascii "")).
